@@ -16,633 +16,758 @@ Definition terms (ts : list tok) (t : pt) : string :=
   digest (show_toks (Some ts)) ++ " " ++ digest (show_pt (Some t)) ++ " " ++ digest (show_pt (parse ts)).
 Definition terms_full (ts : list tok) (t : pt) : string :=
   show_toks (Some ts) ++ nl ++ show_pt (Some t) ++ nl ++ show_pt (parse ts).
-Eval vm_compute in ("<<<M5>>>" ++ check (runes_of_ascii "root
-packet zchar {
-repeatCount // a // b
-@lengthOf(  asx )	, match
-string_ as o// @lengthOf(
-{ 7 :packetx
+Eval vm_compute in ("<<<M5>>>" ++ check (runes_of_ascii "options {
+string_ = char[] }
+")).
+Eval vm_compute in ("<<<M15>>>" ++ check (@nil rune)).
+Eval vm_compute in ("<<<M25>>>" ++ check (runes_of_ascii "root packet zchar{
+@calculatedFrom( ""\" ++ [233]%N ++ runes_of_ascii """)
+@rightPad (
+    // a // b
+    )
+@rightPad	( '\x00' ) int8 Foo ,
+    } packet calculatedFrom { u8x `doc`
+    , }	MetaData x {
+}options{ repeatCount
+    = ""x y"" ;leftPad = """ ++ [128512]%N ++ runes_of_ascii """
+tag= uint8}
+//	t
+")).
+Eval vm_compute in ("<<<M35>>>" ++ check (runes_of_ascii "MetaData Z9_ { i64_ lengthOf `" ++ [233]%N ++ runes_of_ascii "` , x_y_z uint8x  `" ++ [233]%N ++ runes_of_ascii "` , string_ //x
+chars
+// a // b
+// @lengthOf(
+, char[ 1 ] asx `crlf
+line`
+,char[
+    // `tick` ""quote"" 'q'
+    7 ]pack	,
+    uint8	body , }MetaData x
+    { string  x
+`100% of %d`
     ,
-    7 : Pad},// packet A { u8 x, }
-zchar[ 65535 ]
+    }
+")).
+Eval vm_compute in ("<<<M45>>>" ++ check (runes_of_ascii "root packet // " ++ [27880; 37322]%N ++ runes_of_ascii "
+tag { // trailing space 
+leftPad , }")).
+Eval vm_compute in ("<<<M55>>>" ++ check (runes_of_ascii "options {
+leftPad
+=""x y""
     T
-@calculatedFrom( /// triple
-""" ++ [128512]%N ++ runes_of_ascii """
+    =
+true ;
+    } options	{ _x=u8; } options  { u8x // `tick` ""quote"" 'q'
+= char[ 1 ]	;
+    // trailing space 
+    metadata
+    =float32 charz
+= false ;
+int = true
+} // a // b")).
+Eval vm_compute in ("<<<T55>>>" ++ terms [mkTok 1 "options" 1 0 false; mkTok 2 "{" 1 8 false; mkTok 42 "leftPad" 2 0 false; mkTok 4 "=" 3 0 false; mkTok 31 """x y""" 3 1 false; mkTok 42 "T" 4 4 false; mkTok 4 "=" 5 4 false; mkTok 10 "true" 6 0 false; mkTok 41 ";" 6 5 false; mkTok 3 "}" 7 4 false; mkTok 1 "options" 7 6 false; mkTok 2 "{" 7 14 false; mkTok 42 "_x" 7 16 false; mkTok 4 "=" 7 18 false; mkTok 20 "u8" 7 19 false; mkTok 41 ";" 7 21 false; mkTok 3 "}" 7 23 false; mkTok 1 "options" 7 25 false; mkTok 2 "{" 7 34 false; mkTok 42 "u8x" 7 36 false; mkTok 44 "// `tick` ""quote"" 'q'" 7 40 true; mkTok 4 "=" 8 0 false; mkTok 12 "char[" 8 2 false; mkTok 30 "1" 8 8 false; mkTok 13 "]" 8 10 false; mkTok 41 ";" 8 12 false; mkTok 44 "// trailing space " 9 4 true; mkTok 42 "metadata" 10 4 false; mkTok 4 "=" 11 4 false; mkTok 28 "float32" 11 5 false; mkTok 42 "charz" 11 13 false; mkTok 4 "=" 12 0 false; mkTok 11 "false" 12 2 false; mkTok 41 ";" 12 8 false; mkTok 42 "int" 13 0 false; mkTok 4 "=" 13 4 false; mkTok 10 "true" 13 6 false; mkTok 3 "}" 14 0 false; mkTok 44 "// a // b" 14 2 true; mkTok 0 "<EOF>" 14 11 false] (mkPacket (mkPtok 1 "options" 1 0 0) (Some (mkPtok 3 "}" 14 0 37)) [(DOption (mkOptionDef (mkSpan (mkPtok 1 "options" 1 0 0) (mkPtok 3 "}" 7 4 9)) (mkPtok 1 "options" 1 0 0) (mkPtok 2 "{" 1 8 1) [(mkOptionDecl (mkSpan (mkPtok 42 "leftPad" 2 0 2) (mkPtok 31 """x y""" 3 1 4)) (mkPtok 42 "leftPad" 2 0 2) (mkPtok 4 "=" 3 0 3) (VString (mkSpan (mkPtok 31 """x y""" 3 1 4) (mkPtok 31 """x y""" 3 1 4)) (mkPtok 31 """x y""" 3 1 4)) None); (mkOptionDecl (mkSpan (mkPtok 42 "T" 4 4 5) (mkPtok 41 ";" 6 5 8)) (mkPtok 42 "T" 4 4 5) (mkPtok 4 "=" 5 4 6) (VTrue (mkSpan (mkPtok 10 "true" 6 0 7) (mkPtok 10 "true" 6 0 7)) (mkPtok 10 "true" 6 0 7)) (Some (mkPtok 41 ";" 6 5 8)))] (mkPtok 3 "}" 7 4 9))); (DOption (mkOptionDef (mkSpan (mkPtok 1 "options" 7 6 10) (mkPtok 3 "}" 7 23 16)) (mkPtok 1 "options" 7 6 10) (mkPtok 2 "{" 7 14 11) [(mkOptionDecl (mkSpan (mkPtok 42 "_x" 7 16 12) (mkPtok 41 ";" 7 21 15)) (mkPtok 42 "_x" 7 16 12) (mkPtok 4 "=" 7 18 13) (VType (mkSpan (mkPtok 20 "u8" 7 19 14) (mkPtok 20 "u8" 7 19 14)) (TyBasic (mkSpan (mkPtok 20 "u8" 7 19 14) (mkPtok 20 "u8" 7 19 14)) (mkBasicType (mkSpan (mkPtok 20 "u8" 7 19 14) (mkPtok 20 "u8" 7 19 14)) (mkPtok 20 "u8" 7 19 14)))) (Some (mkPtok 41 ";" 7 21 15)))] (mkPtok 3 "}" 7 23 16))); (DOption (mkOptionDef (mkSpan (mkPtok 1 "options" 7 25 17) (mkPtok 3 "}" 14 0 37)) (mkPtok 1 "options" 7 25 17) (mkPtok 2 "{" 7 34 18) [(mkOptionDecl (mkSpan (mkPtok 42 "u8x" 7 36 19) (mkPtok 41 ";" 8 12 25)) (mkPtok 42 "u8x" 7 36 19) (mkPtok 4 "=" 8 0 21) (VType (mkSpan (mkPtok 12 "char[" 8 2 22) (mkPtok 13 "]" 8 10 24)) (TyFixed (mkSpan (mkPtok 12 "char[" 8 2 22) (mkPtok 13 "]" 8 10 24)) (mkFixedString (mkSpan (mkPtok 12 "char[" 8 2 22) (mkPtok 13 "]" 8 10 24)) (mkPtok 12 "char[" 8 2 22) (mkPtok 30 "1" 8 8 23) (mkPtok 13 "]" 8 10 24)))) (Some (mkPtok 41 ";" 8 12 25))); (mkOptionDecl (mkSpan (mkPtok 42 "metadata" 10 4 27) (mkPtok 28 "float32" 11 5 29)) (mkPtok 42 "metadata" 10 4 27) (mkPtok 4 "=" 11 4 28) (VType (mkSpan (mkPtok 28 "float32" 11 5 29) (mkPtok 28 "float32" 11 5 29)) (TyBasic (mkSpan (mkPtok 28 "float32" 11 5 29) (mkPtok 28 "float32" 11 5 29)) (mkBasicType (mkSpan (mkPtok 28 "float32" 11 5 29) (mkPtok 28 "float32" 11 5 29)) (mkPtok 28 "float32" 11 5 29)))) None); (mkOptionDecl (mkSpan (mkPtok 42 "charz" 11 13 30) (mkPtok 41 ";" 12 8 33)) (mkPtok 42 "charz" 11 13 30) (mkPtok 4 "=" 12 0 31) (VFalse (mkSpan (mkPtok 11 "false" 12 2 32) (mkPtok 11 "false" 12 2 32)) (mkPtok 11 "false" 12 2 32)) (Some (mkPtok 41 ";" 12 8 33))); (mkOptionDecl (mkSpan (mkPtok 42 "int" 13 0 34) (mkPtok 10 "true" 13 6 36)) (mkPtok 42 "int" 13 0 34) (mkPtok 4 "=" 13 4 35) (VTrue (mkSpan (mkPtok 10 "true" 13 6 36) (mkPtok 10 "true" 13 6 36)) (mkPtok 10 "true" 13 6 36)) None)] (mkPtok 3 "}" 14 0 37)))])).
+Eval vm_compute in ("<<<M65>>>" ++ check (runes_of_ascii "
+packet calculatedFrom {
+repeat string	trueish,}
+
+")).
+Eval vm_compute in ("<<<M75>>>" ++ check (runes_of_ascii "// `tick` ""quote"" 'q'
+packet
+u { }  MetaData Packet { int64 u128//
+, x crc `
+` ,
+    float64 len ,
+f32
+// @lengthOf(
+//
+A `
+`, // 50% %s
+}
+//x
+// `tick` ""quote"" 'q'
+root
+packet
+crc { body {
+    f64
+leftPad , a1  , }
+    , repeat uint8x{ repeat f32 string_ `
+` ,
+int8
+    // " ++ [27880; 37322]%N ++ runes_of_ascii "
+    T @calculatedFrom(
+"""" ) `say ""hi""` ,
+uint8 repeatCount ,} , }
+")).
+Eval vm_compute in ("<<<M85>>>" ++ check (runes_of_ascii "options{  }
+options
+    { o =
+//x
+//	t
+false packetx=
+    // @lengthOf(
+    """ ++ [233]%N ++ runes_of_ascii "t" ++ [233]%N ++ runes_of_ascii """	asx = 0123456789 Foo = int8 a1
+    = uint8
+    ;
+    } //	t")).
+Eval vm_compute in ("<<<M95>>>" ++ check (runes_of_ascii "MetaData	metadata	{}
+")).
+Eval vm_compute in ("<<<M105>>>" ++ check (runes_of_ascii "// a // b
+root
+packet falsey // " ++ [27880; 37322]%N ++ runes_of_ascii "
+{ }
+packet	i8i8 { char[] body `" ++ [233]%N ++ runes_of_ascii "` , }
+packet
+Logon  { @calculatedFrom( ""\n"") @tag(7 ) @calculatedFrom( ""1"" )
+repeat  char[// " ++ [27880; 37322]%N ++ runes_of_ascii "
+1
+/// triple
+// c
+] float `" ++ [233]%N ++ runes_of_ascii "` ,
+    @lengthOf( As
 )
-    , tag @lengthOf( // " ++ [27880; 37322]%N ++ runes_of_ascii "
-u ) `crlf
-line`,
-    @calculatedFrom(
+    // " ++ [27880; 37322]%N ++ runes_of_ascii "
+    lengthOf@calculatedFrom( ""`tick`"" ), @lengthOf( Foo) repeat char[ 0123456789 ] a1 , Packet `tab	here` ,
+}
+")).
+Eval vm_compute in ("<<<M115>>>" ++ check (runes_of_ascii "
+packet repeatCount {
+    matchKey roots`crlf
+line` , char
+    int@lengthOf(
+x_y_z  ) , calculatedFrom @calculatedFrom(
+""a\""b"" // packet A { u8 x, }
+) , }
+root packet f32a
+    {
+/// triple
+// trailing space 
+@rightPad (
+'0' // " ++ [27880; 37322]%N ++ runes_of_ascii "
+) repeat u8 Pad, trueish calculatedFrom
+    // `tick` ""quote"" 'q'
+    , @calculatedFrom(
+""" ++ [28040; 24687]%N ++ runes_of_ascii """ ) match msg_type
+    as pack {""abc""
+:
+repeatCount ,
+""{,}"" : repeatCount  ""a	b"" : calculatedFrom } ,} root packet repeatCount  { int32
+    //
+    stringy ,/// triple
+}
+root packet//	t
+BodyLength {@lengthOf( As )//x
+repeat charz { match chars
+as chars { 0
+: MetaDataX ""\n"" :
+    // trailing space 
+    crc	,
+    } , } , }")).
+Eval vm_compute in ("<<<M125>>>" ++ check (runes_of_ascii "packet zchar { @tag( 65535 ) @tag(
+10 ) charz , char[] MetaDataX
+@calculatedFrom( ""x y"" )	`line1
+line2` ,
+    } 	 ")).
+Eval vm_compute in ("<<<T125>>>" ++ terms [mkTok 35 "packet" 1 0 false; mkTok 42 "zchar" 1 7 false; mkTok 2 "{" 1 13 false; mkTok 9 "@tag(" 1 15 false; mkTok 30 "65535" 1 21 false; mkTok 6 ")" 1 27 false; mkTok 9 "@tag(" 1 29 false; mkTok 30 "10" 2 0 false; mkTok 6 ")" 2 3 false; mkTok 42 "charz" 2 5 false; mkTok 40 "," 2 11 false; mkTok 16 "char[]" 2 13 false; mkTok 42 "MetaDataX" 2 20 false; mkTok 5 "@calculatedFrom(" 3 0 false; mkTok 31 """x y""" 3 17 false; mkTok 6 ")" 3 23 false; mkTok 43 (string_of_bytes [96; 108; 105; 110; 101; 49; 10; 108; 105; 110; 101; 50; 96]%N) 3 25 false; mkTok 40 "," 4 7 false; mkTok 3 "}" 5 4 false; mkTok 0 "<EOF>" 5 8 false] (mkPacket (mkPtok 35 "packet" 1 0 0) (Some (mkPtok 3 "}" 5 4 18)) [(DPacket (mkPacketDef (mkSpan (mkPtok 35 "packet" 1 0 0) (mkPtok 3 "}" 5 4 18)) None (mkPtok 35 "packet" 1 0 0) (mkPtok 42 "zchar" 1 7 1) (mkPtok 2 "{" 1 13 2) [(mkFieldWithAttr (mkSpan (mkPtok 9 "@tag(" 1 15 3) (mkPtok 40 "," 2 11 10)) [(FATag (mkSpan (mkPtok 9 "@tag(" 1 15 3) (mkPtok 6 ")" 1 27 5)) (mkTagAttr (mkSpan (mkPtok 9 "@tag(" 1 15 3) (mkPtok 6 ")" 1 27 5)) (mkPtok 9 "@tag(" 1 15 3) (mkPtok 30 "65535" 1 21 4) (mkPtok 6 ")" 1 27 5))); (FATag (mkSpan (mkPtok 9 "@tag(" 1 29 6) (mkPtok 6 ")" 2 3 8)) (mkTagAttr (mkSpan (mkPtok 9 "@tag(" 1 29 6) (mkPtok 6 ")" 2 3 8)) (mkPtok 9 "@tag(" 1 29 6) (mkPtok 30 "10" 2 0 7) (mkPtok 6 ")" 2 3 8)))] (ObjectField (mkSpan (mkPtok 42 "charz" 2 5 9) (mkPtok 40 "," 2 11 10)) None (mkPtok 42 "charz" 2 5 9) None None (mkPtok 40 "," 2 11 10))); (mkFieldWithAttr (mkSpan (mkPtok 16 "char[]" 2 13 11) (mkPtok 40 "," 4 7 17)) [] (CheckSumField (mkSpan (mkPtok 16 "char[]" 2 13 11) (mkPtok 40 "," 4 7 17)) (mkChecksumFieldDecl (mkSpan (mkPtok 16 "char[]" 2 13 11) (mkPtok 40 "," 4 7 17)) (Some (TyDynamic (mkSpan (mkPtok 16 "char[]" 2 13 11) (mkPtok 16 "char[]" 2 13 11)) (mkDynamicString (mkSpan (mkPtok 16 "char[]" 2 13 11) (mkPtok 16 "char[]" 2 13 11)) (mkPtok 16 "char[]" 2 13 11)))) (mkPtok 42 "MetaDataX" 2 20 12) (mkCalculatedFrom (mkSpan (mkPtok 5 "@calculatedFrom(" 3 0 13) (mkPtok 6 ")" 3 23 15)) (mkPtok 5 "@calculatedFrom(" 3 0 13) (mkPtok 31 """x y""" 3 17 14) (mkPtok 6 ")" 3 23 15)) (Some (mkPtok 43 (string_of_bytes [96; 108; 105; 110; 101; 49; 10; 108; 105; 110; 101; 50; 96]%N) 3 25 16)) (mkPtok 40 "," 4 7 17))))] (mkPtok 3 "}" 5 4 18)))])).
+Eval vm_compute in ("<<<M135>>>" ++ check (runes_of_ascii "
+")).
+Eval vm_compute in ("<<<M145>>>" ++ check (runes_of_ascii "root packet
+chars{ @rightPad
+    ( )o { roots `100% of %d` ,repeat uint64 pack
+`` ,} // " ++ [128512]%N ++ runes_of_ascii " emoji
+, }
+")).
+Eval vm_compute in ("<<<M155>>>" ++ check (runes_of_ascii "MetaData float{
+// `tick` ""quote"" 'q'
+// 50% %s
+i64
+    stringy,	} packet metadata
+{ @calculatedFrom( ""a	b"" ) @rightPad
+    ( )
+char[]
+    // 50% %s
+    As , i64 asx ,@calculatedFrom(
+""// no comment"" ) x { repeat
+MetaDataX {
+BodyLength ``, }
+    , i32 u128, _x // 50% %s
+u128, }
+// 50% %s
+// packet A { u8 x, }
+, match u as o
+{ 7 : As ""x y""
+:
+f32a ,
+    } ,
+    lengthOf@lengthOf( i8i8 )  , @lengthOf(//x
+roots )
+@calculatedFrom("""" )
+@rightPad( '0' )repeat char[
+7 ] falsey,@leftPad
+( )
+i32 _x `" ++ [28040; 24687; 31867; 22411]%N ++ runes_of_ascii "` , } root packet tag { @tag( 42  )
+    repeat
+zchar[ 007 ] f32a
+    ,
+@rightPad // `tick` ""quote"" 'q'
+(
+    ) zchar[ 65535
+] Pad ,int64 body , leftPad
+`it's` ,string lengthOf , i32 packetx // a // b
+@lengthOf( asx )`two words` ,
+    @leftPad ( '0'
+)	repeat	msg_type
+    rootA,
+options1 u8x // a // b
+,  @tag(
+    //x
+    42) zchar[ 65535
+// c
+//x
+] As
+@lengthOf( // packet A { u8 x, }
+a1
+    ) ``
+,	} root packet charz{ @tag( 4294967296 )
+    string
+options1`100% of %d`,} packet Header{}
+")).
+Eval vm_compute in ("<<<M165>>>" ++ check (runes_of_ascii "MetaData rootA {
+    zchar[ 007	] uint8x
+    `u8 x,` ,char[] lengthOf `a\` , As MetaDataX ,zchar[ 10 ]
+len , // @lengthOf(
+chars	As , }	packet pack {
+    } root packet chars {@tag( //	t
+3 ) i64// 50% %s
+leftPad `tab	here` ,	rootA , @leftPad ( '0') repeat
+// trailing space 
+// trailing space 
+int64 uint8x // trailing space 
+, f32a tag
+    , } // @lengthOf(")).
+Eval vm_compute in ("<<<M175>>>" ++ check (runes_of_ascii "options
+    {	}")).
+Eval vm_compute in ("<<<M185>>>" ++ check (runes_of_ascii "packet Foo
+    // packet A { u8 x, }
+    { @lengthOf( u128// " ++ [128512]%N ++ runes_of_ascii " emoji
+) // c
+pack
+{
+    match x as string_
     // " ++ [128512]%N ++ runes_of_ascii " emoji
-    """" ) _x	@calculatedFrom(// @lengthOf(
-""a	b"" )
-`// not a comment` ,match Z9_ as float { 0123456789 : calculatedFrom, ""{,}"":u //	t
-} , @leftPad( ) @tag( 255	) @lengthOf(i8i8
-    ) match
-tag as
-    trueish { 4294967296:	uint8x
-    ,[ //x
-65535 ] : u8x ,	10 : i64_,
-""""
-    :metadata
-    } , int64 T , } root packet len { @tag(	0) Logon ,
-@tag(255) repeat u64 packetx `it's`
-    , @tag(
-    4294967296 )
-zchar[007 ]repeatCount `a\` , char[ 4294967296
-]
+    {""" ++ [28040; 24687]%N ++ runes_of_ascii """
+: BodyLength ,} , }// a // b
+,char[ 4294967296 ] i64_ `" ++ [233]%N ++ runes_of_ascii "` ,@lengthOf(u8x
+    ) repeat float64 f32a ,
+// a // b
+// packet A { u8 x, }
+} // 50% %s
+options { MetaDataX=  ""a\\""
+pack =// packet A { u8 x, }
+false;	options1
+    // a // b
+    = char[]  Pad= '0'
+    ;
+u8x =false}
+")).
+Eval vm_compute in ("<<<M195>>>" ++ check (runes_of_ascii "root
+// trailing space 
+// `tick` ""quote"" 'q'
+packet crc
+    /// triple
+    {
+@tag( 0123456789  ) repeat int64 o // 50% %s
+,  @calculatedFrom(
+    ""1"" ) match
+    // trailing space 
+    asx as
+pack {
+[ // " ++ [128512]%N ++ runes_of_ascii " emoji
+0 ,255,	4294967296 , ""x y""	,
 // " ++ [128512]%N ++ runes_of_ascii " emoji
 // packet A { u8 x, }
-asx @calculatedFrom(
-""it's"" ), }	root packet asx {	uint16 options1@lengthOf(
-    matchKey ) `it's`	, }	root //
-packet
-Logon{ @lengthOf( asx) @calculatedFrom(  ""packet""
-)	Z9_ @calculatedFrom(// " ++ [128512]%N ++ runes_of_ascii " emoji
-""" ++ [28040; 24687]%N ++ runes_of_ascii """)
-    ,
-@tag(	007
-    /// triple
-    )
-zchar[0123456789 ] i64_ ,
-msg_type`line1
-line2` , repeat zchar[
-007 ]Pad
-`
-`	, falsey {
-    chars lengthOf ``
-    ,	match Header as lengthOf
-    {
-""" ++ [233]%N ++ runes_of_ascii "t" ++ [233]%N ++ runes_of_ascii """	: falsey 42:
-uint8x , [ 007
-,""abc""
-    ,
-// c
-// a // b
-""abc"" ,""a\\""  ,
-65535 // c
-,""a\""b"" ,
-42, ""{,}"" ]:charz } , int64 //x
-Foo // c
-, Z9_@lengthOf( int )`it's`
-, }
-,
-    @rightPad
-    ( ) // trailing space 
-string As @calculatedFrom(""" ++ [28040; 24687]%N ++ runes_of_ascii """ ) ,
-    // c
-    match matchKey as repeatCount{
-4294967296 :msg_type	, """ ++ [28040; 24687]%N ++ runes_of_ascii """ : zchar 3  : u8x , """":	asx
-// trailing space 
-// `tick` ""quote"" 'q'
-, } ,}
-")).
-Eval vm_compute in ("<<<M15>>>" ++ check (runes_of_ascii "options { matchKey
-    =
-10 } MetaData options1{
-    matchKey o `doc` , rootA tag
-,uint32 _x /// triple
-`line1
-line2`, char[] chars `say ""hi""`,  }")).
-Eval vm_compute in ("<<<M25>>>" ++ check (runes_of_ascii "root packet
-    metadata// " ++ [128512]%N ++ runes_of_ascii " emoji
-{ } packet // c
-u
-{@leftPad (
-) repeat char[  4294967296 ] A
-`a\`  ,
-}
-")).
-Eval vm_compute in ("<<<M35>>>" ++ check (runes_of_ascii "// " ++ [27880; 37322]%N ++ runes_of_ascii "
-root packet chars { @rightPad(
-    //	t
-    )
-    u8x @calculatedFrom( ""a	b"" ) `line1
-line2` ,
-repeat
-tag {
-    repeat options1 f32a
-    `" ++ [28040; 24687; 31867; 22411]%N ++ runes_of_ascii "` , },	}
-")).
-Eval vm_compute in ("<<<M45>>>" ++ check (runes_of_ascii "packet rootA { @rightPad( ' ') repeat
-    Z9_ roots
-``,	zchar
-tag `two words` , @rightPad ( ' '
-    )
-len {
-// trailing space 
-//x
-u128
-`doc` ,u8x
-    ,  char[ 0123456789 // a // b
-]calculatedFrom  `" ++ [28040; 24687; 31867; 22411]%N ++ runes_of_ascii "`,msg_type
-@lengthOf(
-falsey)`u8 x,` , } ,
-@calculatedFrom( """"	)	f64 charz
-@lengthOf(msg_type) `it's`// trailing space 
-,
-    }
-")).
-Eval vm_compute in ("<<<M55>>>" ++ check (runes_of_ascii "MetaData
-trueish {int
-falsey , char[
-10
-    ] u  , zchar[ 007 ] leftPad , string
-x `two words`
-    ,  }
-")).
-Eval vm_compute in ("<<<T55>>>" ++ terms [mkTok 37 "MetaData" 1 0 false; mkTok 42 "trueish" 2 0 false; mkTok 2 "{" 2 8 false; mkTok 42 "int" 2 9 false; mkTok 42 "falsey" 3 0 false; mkTok 40 "," 3 7 false; mkTok 12 "char[" 3 9 false; mkTok 30 "10" 4 0 false; mkTok 13 "]" 5 4 false; mkTok 42 "u" 5 6 false; mkTok 40 "," 5 9 false; mkTok 14 "zchar[" 5 11 false; mkTok 30 "007" 5 18 false; mkTok 13 "]" 5 22 false; mkTok 42 "leftPad" 5 24 false; mkTok 40 "," 5 32 false; mkTok 15 "string" 5 34 false; mkTok 42 "x" 6 0 false; mkTok 43 "`two words`" 6 2 false; mkTok 40 "," 7 4 false; mkTok 3 "}" 7 7 false; mkTok 0 "<EOF>" 8 0 false] (mkPacket (mkPtok 37 "MetaData" 1 0 0) (Some (mkPtok 3 "}" 7 7 20)) [(DMeta (mkMetaDef (mkSpan (mkPtok 37 "MetaData" 1 0 0) (mkPtok 3 "}" 7 7 20)) (mkPtok 37 "MetaData" 1 0 0) (mkPtok 42 "trueish" 2 0 1) (mkPtok 2 "{" 2 8 2) [(MIRef (mkRefMetaDecl (mkSpan (mkPtok 42 "int" 2 9 3) (mkPtok 40 "," 3 7 5)) (mkPtok 42 "int" 2 9 3) (mkPtok 42 "falsey" 3 0 4) None (mkPtok 40 "," 3 7 5))); (MIDecl (mkMetaDecl (mkSpan (mkPtok 12 "char[" 3 9 6) (mkPtok 40 "," 5 9 10)) (TyFixed (mkSpan (mkPtok 12 "char[" 3 9 6) (mkPtok 13 "]" 5 4 8)) (mkFixedString (mkSpan (mkPtok 12 "char[" 3 9 6) (mkPtok 13 "]" 5 4 8)) (mkPtok 12 "char[" 3 9 6) (mkPtok 30 "10" 4 0 7) (mkPtok 13 "]" 5 4 8))) (mkPtok 42 "u" 5 6 9) None (mkPtok 40 "," 5 9 10))); (MIDecl (mkMetaDecl (mkSpan (mkPtok 14 "zchar[" 5 11 11) (mkPtok 40 "," 5 32 15)) (TyFixed (mkSpan (mkPtok 14 "zchar[" 5 11 11) (mkPtok 13 "]" 5 22 13)) (mkFixedString (mkSpan (mkPtok 14 "zchar[" 5 11 11) (mkPtok 13 "]" 5 22 13)) (mkPtok 14 "zchar[" 5 11 11) (mkPtok 30 "007" 5 18 12) (mkPtok 13 "]" 5 22 13))) (mkPtok 42 "leftPad" 5 24 14) None (mkPtok 40 "," 5 32 15))); (MIDecl (mkMetaDecl (mkSpan (mkPtok 15 "string" 5 34 16) (mkPtok 40 "," 7 4 19)) (TyDynamic (mkSpan (mkPtok 15 "string" 5 34 16) (mkPtok 15 "string" 5 34 16)) (mkDynamicString (mkSpan (mkPtok 15 "string" 5 34 16) (mkPtok 15 "string" 5 34 16)) (mkPtok 15 "string" 5 34 16))) (mkPtok 42 "x" 6 0 17) (Some (mkPtok 43 "`two words`" 6 2 18)) (mkPtok 40 "," 7 4 19)))] (mkPtok 3 "}" 7 7 20)))])).
-Eval vm_compute in ("<<<M65>>>" ++ check (runes_of_ascii "MetaData
-    Packet { string Logon `" ++ [233]%N ++ runes_of_ascii "`
-,
-    int8
-    _x
-//	t
-// " ++ [27880; 37322]%N ++ runes_of_ascii "
-,
-}
-
-")).
-Eval vm_compute in ("<<<M75>>>" ++ check (runes_of_ascii "packet MetaDataX
-{ @calculatedFrom(
-    ""CRC32""
-    ) @tag(	255 //
-) zchar[ 007
-// c
-// trailing space 
-] Logon , } MetaData
-// " ++ [27880; 37322]%N ++ runes_of_ascii "
-// `tick` ""quote"" 'q'
-u8x{ char[0123456789
-    // @lengthOf(
-    ]	Foo , i64 x_y_z , o msg_type
-    , }
-// packet A { u8 x, }
-")).
-Eval vm_compute in ("<<<M85>>>" ++ check (runes_of_ascii "
-")).
-Eval vm_compute in ("<<<M95>>>" ++ check (runes_of_ascii "// trailing space 
-MetaData u8x
-{
-i64_
-    i64_ `doc`,i16 Z9_ `say ""hi""` , BodyLength
-roots ,
+""x y""
+    , 42 ] : u8x,
+    },
 }")).
-Eval vm_compute in ("<<<M105>>>" ++ check (runes_of_ascii "
-root
-packet Packet
-{ char[0123456789 ] pack @lengthOf(
-As ) `{ , }`,
-repeat
-    // `tick` ""quote"" 'q'
+Eval vm_compute in ("<<<T195>>>" ++ terms [mkTok 34 "root" 1 0 false; mkTok 44 "// trailing space " 2 0 true; mkTok 44 "// `tick` ""quote"" 'q'" 3 0 true; mkTok 35 "packet" 4 0 false; mkTok 42 "crc" 4 7 false; mkTok 44 "/// triple" 5 4 true; mkTok 2 "{" 6 4 false; mkTok 9 "@tag(" 7 0 false; mkTok 30 "0123456789" 7 6 false; mkTok 6 ")" 7 18 false; mkTok 36 "repeat" 7 20 false; mkTok 27 "int64" 7 27 false; mkTok 42 "o" 7 33 false; mkTok 44 "// 50% %s" 7 35 true; mkTok 40 "," 8 0 false; mkTok 5 "@calculatedFrom(" 8 3 false; mkTok 31 """1""" 9 4 false; mkTok 6 ")" 9 8 false; mkTok 38 "match" 9 10 false; mkTok 44 "// trailing space " 10 4 true; mkTok 42 "asx" 11 4 false; mkTok 17 "as" 11 8 false; mkTok 42 "pack" 12 0 false; mkTok 2 "{" 12 5 false; mkTok 18 "[" 13 0 false; mkTok 44 (string_of_bytes [47; 47; 32; 240; 159; 152; 128; 32; 101; 109; 111; 106; 105]%N) 13 2 true; mkTok 30 "0" 14 0 false; mkTok 40 "," 14 2 false; mkTok 30 "255" 14 3 false; mkTok 40 "," 14 6 false; mkTok 30 "4294967296" 14 8 false; mkTok 40 "," 14 19 false; mkTok 31 """x y""" 14 21 false; mkTok 40 "," 14 27 false; mkTok 44 (string_of_bytes [47; 47; 32; 240; 159; 152; 128; 32; 101; 109; 111; 106; 105]%N) 15 0 true; mkTok 44 "// packet A { u8 x, }" 16 0 true; mkTok 31 """x y""" 17 0 false; mkTok 40 "," 18 4 false; mkTok 30 "42" 18 6 false; mkTok 13 "]" 18 9 false; mkTok 39 ":" 18 11 false; mkTok 42 "u8x" 18 13 false; mkTok 40 "," 18 16 false; mkTok 3 "}" 19 4 false; mkTok 40 "," 19 5 false; mkTok 3 "}" 20 0 false; mkTok 0 "<EOF>" 20 1 false] (mkPacket (mkPtok 34 "root" 1 0 0) (Some (mkPtok 3 "}" 20 0 45)) [(DPacket (mkPacketDef (mkSpan (mkPtok 34 "root" 1 0 0) (mkPtok 3 "}" 20 0 45)) (Some (mkPtok 34 "root" 1 0 0)) (mkPtok 35 "packet" 4 0 3) (mkPtok 42 "crc" 4 7 4) (mkPtok 2 "{" 6 4 6) [(mkFieldWithAttr (mkSpan (mkPtok 9 "@tag(" 7 0 7) (mkPtok 40 "," 8 0 14)) [(FATag (mkSpan (mkPtok 9 "@tag(" 7 0 7) (mkPtok 6 ")" 7 18 9)) (mkTagAttr (mkSpan (mkPtok 9 "@tag(" 7 0 7) (mkPtok 6 ")" 7 18 9)) (mkPtok 9 "@tag(" 7 0 7) (mkPtok 30 "0123456789" 7 6 8) (mkPtok 6 ")" 7 18 9)))] (MetaField (mkSpan (mkPtok 36 "repeat" 7 20 10) (mkPtok 40 "," 8 0 14)) (Some (mkPtok 36 "repeat" 7 20 10)) (mkMetaDecl (mkSpan (mkPtok 27 "int64" 7 27 11) (mkPtok 40 "," 8 0 14)) (TyBasic (mkSpan (mkPtok 27 "int64" 7 27 11) (mkPtok 27 "int64" 7 27 11)) (mkBasicType (mkSpan (mkPtok 27 "int64" 7 27 11) (mkPtok 27 "int64" 7 27 11)) (mkPtok 27 "int64" 7 27 11))) (mkPtok 42 "o" 7 33 12) None (mkPtok 40 "," 8 0 14)))); (mkFieldWithAttr (mkSpan (mkPtok 5 "@calculatedFrom(" 8 3 15) (mkPtok 40 "," 19 5 44)) [(FACalculatedFrom (mkSpan (mkPtok 5 "@calculatedFrom(" 8 3 15) (mkPtok 6 ")" 9 8 17)) (mkCalculatedFrom (mkSpan (mkPtok 5 "@calculatedFrom(" 8 3 15) (mkPtok 6 ")" 9 8 17)) (mkPtok 5 "@calculatedFrom(" 8 3 15) (mkPtok 31 """1""" 9 4 16) (mkPtok 6 ")" 9 8 17)))] (MatchField (mkSpan (mkPtok 38 "match" 9 10 18) (mkPtok 40 "," 19 5 44)) (mkMatchFieldDecl (mkSpan (mkPtok 38 "match" 9 10 18) (mkPtok 3 "}" 19 4 43)) (mkPtok 38 "match" 9 10 18) (mkPtok 42 "asx" 11 4 20) (mkPtok 17 "as" 11 8 21) (mkPtok 42 "pack" 12 0 22) (mkPtok 2 "{" 12 5 23) [(mkMatchPair (mkSpan (mkPtok 18 "[" 13 0 24) (mkPtok 40 "," 18 16 42)) (MKList (mkKeyList (mkSpan (mkPtok 18 "[" 13 0 24) (mkPtok 13 "]" 18 9 39)) (mkPtok 18 "[" 13 0 24) (mkPtok 30 "0" 14 0 26) [((mkPtok 40 "," 14 2 27), (mkPtok 30 "255" 14 3 28)); ((mkPtok 40 "," 14 6 29), (mkPtok 30 "4294967296" 14 8 30)); ((mkPtok 40 "," 14 19 31), (mkPtok 31 """x y""" 14 21 32)); ((mkPtok 40 "," 14 27 33), (mkPtok 31 """x y""" 17 0 36)); ((mkPtok 40 "," 18 4 37), (mkPtok 30 "42" 18 6 38))] (mkPtok 13 "]" 18 9 39))) (mkPtok 39 ":" 18 11 40) (mkPtok 42 "u8x" 18 13 41) (Some (mkPtok 40 "," 18 16 42)))] (mkPtok 3 "}" 19 4 43)) (mkPtok 40 "," 19 5 44)))] (mkPtok 3 "}" 20 0 45)))])).
+Eval vm_compute in ("<<<M205>>>" ++ check (runes_of_ascii "packet stringy { repeat	f32a o`" ++ [28040; 24687; 31867; 22411]%N ++ runes_of_ascii "`
+    , @lengthOf( f32a) /// triple
+char[
+    42 ] uint8x ,
+@tag( 42// trailing space 
+)
+    float @lengthOf( MetaDataX ),
     string
-    rootA ,	match
-repeatCount
-    as
-    pack /// triple
-{ ""a\""b""
-    :uint8x// packet A { u8 x, }
-[ ""x y"" ,
-    ""it's""
-    // " ++ [128512]%N ++ runes_of_ascii " emoji
-    ]	: chars
-    ""\" ++ [233]%N ++ runes_of_ascii """
-: //	t
-crc	0123456789 :Packet ,[""1""
-]:	A ,
-    // @lengthOf(
-    } ,// `tick` ""quote"" 'q'
-} options /// triple
-{ }packet pack // trailing space 
-{ i8//x
-MetaDataX ,string float
-`" ++ [28040; 24687; 31867; 22411]%N ++ runes_of_ascii "`,@lengthOf( trueish)
-@calculatedFrom(
-    ""`tick`"" ) f64 lengthOf ,repeat pack	packetx
-// trailing space 
-// packet A { u8 x, }
-, }
-")).
-Eval vm_compute in ("<<<M115>>>" ++ check (@nil rune)).
-Eval vm_compute in ("<<<M125>>>" ++ check (runes_of_ascii "root packet // c
-falsey { roots { repeat x_y_z ,
-} , char[] T `
-` , char[	3 ]T/// triple
-,zchar { repeat
-zchar[ 65535 ]
-    rootA  `tab	here`
-    , int32 leftPad , }
-,
-// packet A { u8 x, }
-// `tick` ""quote"" 'q'
-repeat
-    Packet
-    //	t
-    ,repeat
-char[ 00 ] body`" ++ [233]%N ++ runes_of_ascii "` , @tag(
-00// @lengthOf(
-) a1 i64_
-, i8i8 BodyLength `{ , }`
-    , match
-    crc as u8x
-// a // b
-//	t
-{ [
-    // `tick` ""quote"" 'q'
-    0 ]:
-    matchKey , [ 0123456789,
-""a\\""
-,
-""abc"" ]:As , """ ++ [128512]%N ++ runes_of_ascii """ : tag, 7 :
-    u8x , 42 : f32a 00 :options1 } // trailing space 
-,} packet// " ++ [27880; 37322]%N ++ runes_of_ascii "
-MetaDataX{@tag( 42)@leftPad ( ) @leftPad
-    //x
-    ( )  body i64_ , } packet int{ @calculatedFrom(
-// " ++ [27880; 37322]%N ++ runes_of_ascii "
-//
-""" ++ [233]%N ++ runes_of_ascii "t" ++ [233]%N ++ runes_of_ascii """)
-@tag(42 ) @leftPad	( '\x00' ) repeat u8x ,  repeat len , @tag(	255	)match calculatedFrom as Z9_ {  ""CRC32"" :	len,""packet"" : falsey, [65535,
-42//x
-]// @lengthOf(
-: charz ,
-} // @lengthOf(
-,i8i8 ,match
-i8i8
-    as Foo // trailing space 
-{ ""a\\"" : x , } , @leftPad
-( ) char crc `say ""hi""` ,
-} options {	Pad =
-    zchar[ // trailing space 
-0
-]; pack="""" // c
-;
-    } root
-    packet lengthOf
-{ @leftPad ('0' ) A
-    // trailing space 
-    @calculatedFrom(
-// " ++ [27880; 37322]%N ++ runes_of_ascii "
-//
-""\" ++ [233]%N ++ runes_of_ascii """),@calculatedFrom( ""abc""// c
-)  repeat// c
-char[] a1 ,repeat int  trueish  , @rightPad(
-    '\x00'
-    )// a // b
-zchar[4294967296 ] _x ,repeat
-stringy //
-x	,@tag( 00  ) @lengthOf( int )  @tag( 0) u8	T	,
-@tag(1 ) @lengthOf(
-a1 ) @calculatedFrom( ""it's"" ) char[ 10 ] body ,  @lengthOf( f32a )
-    rootA
-@calculatedFrom(""{,}"" ), // " ++ [128512]%N ++ runes_of_ascii " emoji
-} 	 ")).
-Eval vm_compute in ("<<<T125>>>" ++ terms [mkTok 34 "root" 1 0 false; mkTok 35 "packet" 1 5 false; mkTok 44 "// c" 1 12 true; mkTok 42 "falsey" 2 0 false; mkTok 2 "{" 2 7 false; mkTok 42 "roots" 2 9 false; mkTok 2 "{" 2 15 false; mkTok 36 "repeat" 2 17 false; mkTok 42 "x_y_z" 2 24 false; mkTok 40 "," 2 30 false; mkTok 3 "}" 3 0 false; mkTok 40 "," 3 2 false; mkTok 16 "char[]" 3 4 false; mkTok 42 "T" 3 11 false; mkTok 43 (string_of_bytes [96; 10; 96]%N) 3 13 false; mkTok 40 "," 4 2 false; mkTok 12 "char[" 4 4 false; mkTok 30 "3" 4 10 false; mkTok 13 "]" 4 12 false; mkTok 42 "T" 4 13 false; mkTok 44 "/// triple" 4 14 true; mkTok 40 "," 5 0 false; mkTok 42 "zchar" 5 1 false; mkTok 2 "{" 5 7 false; mkTok 36 "repeat" 5 9 false; mkTok 14 "zchar[" 6 0 false; mkTok 30 "65535" 6 7 false; mkTok 13 "]" 6 13 false; mkTok 42 "rootA" 7 4 false; mkTok 43 (string_of_bytes [96; 116; 97; 98; 9; 104; 101; 114; 101; 96]%N) 7 11 false; mkTok 40 "," 8 4 false; mkTok 26 "int32" 8 6 false; mkTok 42 "leftPad" 8 12 false; mkTok 40 "," 8 20 false; mkTok 3 "}" 8 22 false; mkTok 40 "," 9 0 false; mkTok 44 "// packet A { u8 x, }" 10 0 true; mkTok 44 "// `tick` ""quote"" 'q'" 11 0 true; mkTok 36 "repeat" 12 0 false; mkTok 42 "Packet" 13 4 false; mkTok 44 (string_of_bytes [47; 47; 9; 116]%N) 14 4 true; mkTok 40 "," 15 4 false; mkTok 36 "repeat" 15 5 false; mkTok 12 "char[" 16 0 false; mkTok 30 "00" 16 6 false; mkTok 13 "]" 16 9 false; mkTok 42 "body" 16 11 false; mkTok 43 (string_of_bytes [96; 195; 169; 96]%N) 16 15 false; mkTok 40 "," 16 19 false; mkTok 9 "@tag(" 16 21 false; mkTok 30 "00" 17 0 false; mkTok 44 "// @lengthOf(" 17 2 true; mkTok 6 ")" 18 0 false; mkTok 42 "a1" 18 2 false; mkTok 42 "i64_" 18 5 false; mkTok 40 "," 19 0 false; mkTok 42 "i8i8" 19 2 false; mkTok 42 "BodyLength" 19 7 false; mkTok 43 "`{ , }`" 19 18 false; mkTok 40 "," 20 4 false; mkTok 38 "match" 20 6 false; mkTok 42 "crc" 21 4 false; mkTok 17 "as" 21 8 false; mkTok 42 "u8x" 21 11 false; mkTok 44 "// a // b" 22 0 true; mkTok 44 (string_of_bytes [47; 47; 9; 116]%N) 23 0 true; mkTok 2 "{" 24 0 false; mkTok 18 "[" 24 2 false; mkTok 44 "// `tick` ""quote"" 'q'" 25 4 true; mkTok 30 "0" 26 4 false; mkTok 13 "]" 26 6 false; mkTok 39 ":" 26 7 false; mkTok 42 "matchKey" 27 4 false; mkTok 40 "," 27 13 false; mkTok 18 "[" 27 15 false; mkTok 30 "0123456789" 27 17 false; mkTok 40 "," 27 27 false; mkTok 31 """a\\""" 28 0 false; mkTok 40 "," 29 0 false; mkTok 31 """abc""" 30 0 false; mkTok 13 "]" 30 6 false; mkTok 39 ":" 30 7 false; mkTok 42 "As" 30 8 false; mkTok 40 "," 30 11 false; mkTok 31 (string_of_bytes [34; 240; 159; 152; 128; 34]%N) 30 13 false; mkTok 39 ":" 30 17 false; mkTok 42 "tag" 30 19 false; mkTok 40 "," 30 22 false; mkTok 30 "7" 30 24 false; mkTok 39 ":" 30 26 false; mkTok 42 "u8x" 31 4 false; mkTok 40 "," 31 8 false; mkTok 30 "42" 31 10 false; mkTok 39 ":" 31 13 false; mkTok 42 "f32a" 31 15 false; mkTok 30 "00" 31 20 false; mkTok 39 ":" 31 23 false; mkTok 42 "options1" 31 24 false; mkTok 3 "}" 31 33 false; mkTok 44 "// trailing space " 31 35 true; mkTok 40 "," 32 0 false; mkTok 3 "}" 32 1 false; mkTok 35 "packet" 32 3 false; mkTok 44 (string_of_bytes [47; 47; 32; 230; 179; 168; 233; 135; 138]%N) 32 9 true; mkTok 42 "MetaDataX" 33 0 false; mkTok 2 "{" 33 9 false; mkTok 9 "@tag(" 33 10 false; mkTok 30 "42" 33 16 false; mkTok 6 ")" 33 18 false; mkTok 32 "@leftPad" 33 19 false; mkTok 8 "(" 33 28 false; mkTok 6 ")" 33 30 false; mkTok 32 "@leftPad" 33 32 false; mkTok 44 "//x" 34 4 true; mkTok 8 "(" 35 4 false; mkTok 6 ")" 35 6 false; mkTok 42 "body" 35 9 false; mkTok 42 "i64_" 35 14 false; mkTok 40 "," 35 19 false; mkTok 3 "}" 35 21 false; mkTok 35 "packet" 35 23 false; mkTok 42 "int" 35 30 false; mkTok 2 "{" 35 33 false; mkTok 5 "@calculatedFrom(" 35 35 false; mkTok 44 (string_of_bytes [47; 47; 32; 230; 179; 168; 233; 135; 138]%N) 36 0 true; mkTok 44 "//" 37 0 true; mkTok 31 (string_of_bytes [34; 195; 169; 116; 195; 169; 34]%N) 38 0 false; mkTok 6 ")" 38 5 false; mkTok 9 "@tag(" 39 0 false; mkTok 30 "42" 39 5 false; mkTok 6 ")" 39 8 false; mkTok 32 "@leftPad" 39 10 false; mkTok 8 "(" 39 19 false; mkTok 33 "'\x00'" 39 21 false; mkTok 6 ")" 39 28 false; mkTok 36 "repeat" 39 30 false; mkTok 42 "u8x" 39 37 false; mkTok 40 "," 39 41 false; mkTok 36 "repeat" 39 44 false; mkTok 42 "len" 39 51 false; mkTok 40 "," 39 55 false; mkTok 9 "@tag(" 39 57 false; mkTok 30 "255" 39 63 false; mkTok 6 ")" 39 67 false; mkTok 38 "match" 39 68 false; mkTok 42 "calculatedFrom" 39 74 false; mkTok 17 "as" 39 89 false; mkTok 42 "Z9_" 39 92 false; mkTok 2 "{" 39 96 false; mkTok 31 """CRC32""" 39 99 false; mkTok 39 ":" 39 107 false; mkTok 42 "len" 39 109 false; mkTok 40 "," 39 112 false; mkTok 31 """packet""" 39 113 false; mkTok 39 ":" 39 122 false; mkTok 42 "falsey" 39 124 false; mkTok 40 "," 39 130 false; mkTok 18 "[" 39 132 false; mkTok 30 "65535" 39 133 false; mkTok 40 "," 39 138 false; mkTok 30 "42" 40 0 false; mkTok 44 "//x" 40 2 true; mkTok 13 "]" 41 0 false; mkTok 44 "// @lengthOf(" 41 1 true; mkTok 39 ":" 42 0 false; mkTok 42 "charz" 42 2 false; mkTok 40 "," 42 8 false; mkTok 3 "}" 43 0 false; mkTok 44 "// @lengthOf(" 43 2 true; mkTok 40 "," 44 0 false; mkTok 42 "i8i8" 44 1 false; mkTok 40 "," 44 6 false; mkTok 38 "match" 44 7 false; mkTok 42 "i8i8" 45 0 false; mkTok 17 "as" 46 4 false; mkTok 42 "Foo" 46 7 false; mkTok 44 "// trailing space " 46 11 true; mkTok 2 "{" 47 0 false; mkTok 31 """a\\""" 47 2 false; mkTok 39 ":" 47 8 false; mkTok 42 "x" 47 10 false; mkTok 40 "," 47 12 false; mkTok 3 "}" 47 14 false; mkTok 40 "," 47 16 false; mkTok 32 "@leftPad" 47 18 false; mkTok 8 "(" 48 0 false; mkTok 6 ")" 48 2 false; mkTok 19 "char" 48 4 false; mkTok 42 "crc" 48 9 false; mkTok 43 "`say ""hi""`" 48 13 false; mkTok 40 "," 48 24 false; mkTok 3 "}" 49 0 false; mkTok 1 "options" 49 2 false; mkTok 2 "{" 49 10 false; mkTok 42 "Pad" 49 12 false; mkTok 4 "=" 49 16 false; mkTok 14 "zchar[" 50 4 false; mkTok 44 "// trailing space " 50 11 true; mkTok 30 "0" 51 0 false; mkTok 13 "]" 52 0 false; mkTok 41 ";" 52 1 false; mkTok 42 "pack" 52 3 false; mkTok 4 "=" 52 7 false; mkTok 31 """""" 52 8 false; mkTok 44 "// c" 52 11 true; mkTok 41 ";" 53 0 false; mkTok 3 "}" 54 4 false; mkTok 34 "root" 54 6 false; mkTok 35 "packet" 55 4 false; mkTok 42 "lengthOf" 55 11 false; mkTok 2 "{" 56 0 false; mkTok 32 "@leftPad" 56 2 false; mkTok 8 "(" 56 11 false; mkTok 33 "'0'" 56 12 false; mkTok 6 ")" 56 16 false; mkTok 42 "A" 56 18 false; mkTok 44 "// trailing space " 57 4 true; mkTok 5 "@calculatedFrom(" 58 4 false; mkTok 44 (string_of_bytes [47; 47; 32; 230; 179; 168; 233; 135; 138]%N) 59 0 true; mkTok 44 "//" 60 0 true; mkTok 31 (string_of_bytes [34; 92; 195; 169; 34]%N) 61 0 false; mkTok 6 ")" 61 4 false; mkTok 40 "," 61 5 false; mkTok 5 "@calculatedFrom(" 61 6 false; mkTok 31 """abc""" 61 23 false; mkTok 44 "// c" 61 28 true; mkTok 6 ")" 62 0 false; mkTok 36 "repeat" 62 3 false; mkTok 44 "// c" 62 9 true; mkTok 16 "char[]" 63 0 false; mkTok 42 "a1" 63 7 false; mkTok 40 "," 63 10 false; mkTok 36 "repeat" 63 11 false; mkTok 42 "int" 63 18 false; mkTok 42 "trueish" 63 23 false; mkTok 40 "," 63 32 false; mkTok 32 "@rightPad" 63 34 false; mkTok 8 "(" 63 43 false; mkTok 33 "'\x00'" 64 4 false; mkTok 6 ")" 65 4 false; mkTok 44 "// a // b" 65 5 true; mkTok 14 "zchar[" 66 0 false; mkTok 30 "4294967296" 66 6 false; mkTok 13 "]" 66 17 false; mkTok 42 "_x" 66 19 false; mkTok 40 "," 66 22 false; mkTok 36 "repeat" 66 23 false; mkTok 42 "stringy" 67 0 false; mkTok 44 "//" 67 8 true; mkTok 42 "x" 68 0 false; mkTok 40 "," 68 2 false; mkTok 9 "@tag(" 68 3 false; mkTok 30 "00" 68 9 false; mkTok 6 ")" 68 13 false; mkTok 7 "@lengthOf(" 68 15 false; mkTok 42 "int" 68 26 false; mkTok 6 ")" 68 30 false; mkTok 9 "@tag(" 68 33 false; mkTok 30 "0" 68 39 false; mkTok 6 ")" 68 40 false; mkTok 20 "u8" 68 42 false; mkTok 42 "T" 68 45 false; mkTok 40 "," 68 47 false; mkTok 9 "@tag(" 69 0 false; mkTok 30 "1" 69 5 false; mkTok 6 ")" 69 7 false; mkTok 7 "@lengthOf(" 69 9 false; mkTok 42 "a1" 70 0 false; mkTok 6 ")" 70 3 false; mkTok 5 "@calculatedFrom(" 70 5 false; mkTok 31 """it's""" 70 22 false; mkTok 6 ")" 70 29 false; mkTok 12 "char[" 70 31 false; mkTok 30 "10" 70 37 false; mkTok 13 "]" 70 40 false; mkTok 42 "body" 70 42 false; mkTok 40 "," 70 47 false; mkTok 7 "@lengthOf(" 70 50 false; mkTok 42 "f32a" 70 61 false; mkTok 6 ")" 70 66 false; mkTok 42 "rootA" 71 4 false; mkTok 5 "@calculatedFrom(" 72 0 false; mkTok 31 """{,}""" 72 16 false; mkTok 6 ")" 72 22 false; mkTok 40 "," 72 23 false; mkTok 44 (string_of_bytes [47; 47; 32; 240; 159; 152; 128; 32; 101; 109; 111; 106; 105]%N) 72 25 true; mkTok 3 "}" 73 0 false; mkTok 0 "<EOF>" 73 4 false] (mkPacket (mkPtok 34 "root" 1 0 0) (Some (mkPtok 3 "}" 73 0 286)) [(DPacket (mkPacketDef (mkSpan (mkPtok 34 "root" 1 0 0) (mkPtok 3 "}" 32 1 101)) (Some (mkPtok 34 "root" 1 0 0)) (mkPtok 35 "packet" 1 5 1) (mkPtok 42 "falsey" 2 0 3) (mkPtok 2 "{" 2 7 4) [(mkFieldWithAttr (mkSpan (mkPtok 42 "roots" 2 9 5) (mkPtok 40 "," 3 2 11)) [] (InerObjectField (mkSpan (mkPtok 42 "roots" 2 9 5) (mkPtok 40 "," 3 2 11)) None (InerObjectDecl (mkSpan (mkPtok 42 "roots" 2 9 5) (mkPtok 3 "}" 3 0 10)) (mkPtok 42 "roots" 2 9 5) (mkPtok 2 "{" 2 15 6) [(ObjectField (mkSpan (mkPtok 36 "repeat" 2 17 7) (mkPtok 40 "," 2 30 9)) (Some (mkPtok 36 "repeat" 2 17 7)) (mkPtok 42 "x_y_z" 2 24 8) None None (mkPtok 40 "," 2 30 9))] (mkPtok 3 "}" 3 0 10)) (mkPtok 40 "," 3 2 11))); (mkFieldWithAttr (mkSpan (mkPtok 16 "char[]" 3 4 12) (mkPtok 40 "," 4 2 15)) [] (MetaField (mkSpan (mkPtok 16 "char[]" 3 4 12) (mkPtok 40 "," 4 2 15)) None (mkMetaDecl (mkSpan (mkPtok 16 "char[]" 3 4 12) (mkPtok 40 "," 4 2 15)) (TyDynamic (mkSpan (mkPtok 16 "char[]" 3 4 12) (mkPtok 16 "char[]" 3 4 12)) (mkDynamicString (mkSpan (mkPtok 16 "char[]" 3 4 12) (mkPtok 16 "char[]" 3 4 12)) (mkPtok 16 "char[]" 3 4 12))) (mkPtok 42 "T" 3 11 13) (Some (mkPtok 43 (string_of_bytes [96; 10; 96]%N) 3 13 14)) (mkPtok 40 "," 4 2 15)))); (mkFieldWithAttr (mkSpan (mkPtok 12 "char[" 4 4 16) (mkPtok 40 "," 5 0 21)) [] (MetaField (mkSpan (mkPtok 12 "char[" 4 4 16) (mkPtok 40 "," 5 0 21)) None (mkMetaDecl (mkSpan (mkPtok 12 "char[" 4 4 16) (mkPtok 40 "," 5 0 21)) (TyFixed (mkSpan (mkPtok 12 "char[" 4 4 16) (mkPtok 13 "]" 4 12 18)) (mkFixedString (mkSpan (mkPtok 12 "char[" 4 4 16) (mkPtok 13 "]" 4 12 18)) (mkPtok 12 "char[" 4 4 16) (mkPtok 30 "3" 4 10 17) (mkPtok 13 "]" 4 12 18))) (mkPtok 42 "T" 4 13 19) None (mkPtok 40 "," 5 0 21)))); (mkFieldWithAttr (mkSpan (mkPtok 42 "zchar" 5 1 22) (mkPtok 40 "," 9 0 35)) [] (InerObjectField (mkSpan (mkPtok 42 "zchar" 5 1 22) (mkPtok 40 "," 9 0 35)) None (InerObjectDecl (mkSpan (mkPtok 42 "zchar" 5 1 22) (mkPtok 3 "}" 8 22 34)) (mkPtok 42 "zchar" 5 1 22) (mkPtok 2 "{" 5 7 23) [(MetaField (mkSpan (mkPtok 36 "repeat" 5 9 24) (mkPtok 40 "," 8 4 30)) (Some (mkPtok 36 "repeat" 5 9 24)) (mkMetaDecl (mkSpan (mkPtok 14 "zchar[" 6 0 25) (mkPtok 40 "," 8 4 30)) (TyFixed (mkSpan (mkPtok 14 "zchar[" 6 0 25) (mkPtok 13 "]" 6 13 27)) (mkFixedString (mkSpan (mkPtok 14 "zchar[" 6 0 25) (mkPtok 13 "]" 6 13 27)) (mkPtok 14 "zchar[" 6 0 25) (mkPtok 30 "65535" 6 7 26) (mkPtok 13 "]" 6 13 27))) (mkPtok 42 "rootA" 7 4 28) (Some (mkPtok 43 (string_of_bytes [96; 116; 97; 98; 9; 104; 101; 114; 101; 96]%N) 7 11 29)) (mkPtok 40 "," 8 4 30))); (MetaField (mkSpan (mkPtok 26 "int32" 8 6 31) (mkPtok 40 "," 8 20 33)) None (mkMetaDecl (mkSpan (mkPtok 26 "int32" 8 6 31) (mkPtok 40 "," 8 20 33)) (TyBasic (mkSpan (mkPtok 26 "int32" 8 6 31) (mkPtok 26 "int32" 8 6 31)) (mkBasicType (mkSpan (mkPtok 26 "int32" 8 6 31) (mkPtok 26 "int32" 8 6 31)) (mkPtok 26 "int32" 8 6 31))) (mkPtok 42 "leftPad" 8 12 32) None (mkPtok 40 "," 8 20 33)))] (mkPtok 3 "}" 8 22 34)) (mkPtok 40 "," 9 0 35))); (mkFieldWithAttr (mkSpan (mkPtok 36 "repeat" 12 0 38) (mkPtok 40 "," 15 4 41)) [] (ObjectField (mkSpan (mkPtok 36 "repeat" 12 0 38) (mkPtok 40 "," 15 4 41)) (Some (mkPtok 36 "repeat" 12 0 38)) (mkPtok 42 "Packet" 13 4 39) None None (mkPtok 40 "," 15 4 41))); (mkFieldWithAttr (mkSpan (mkPtok 36 "repeat" 15 5 42) (mkPtok 40 "," 16 19 48)) [] (MetaField (mkSpan (mkPtok 36 "repeat" 15 5 42) (mkPtok 40 "," 16 19 48)) (Some (mkPtok 36 "repeat" 15 5 42)) (mkMetaDecl (mkSpan (mkPtok 12 "char[" 16 0 43) (mkPtok 40 "," 16 19 48)) (TyFixed (mkSpan (mkPtok 12 "char[" 16 0 43) (mkPtok 13 "]" 16 9 45)) (mkFixedString (mkSpan (mkPtok 12 "char[" 16 0 43) (mkPtok 13 "]" 16 9 45)) (mkPtok 12 "char[" 16 0 43) (mkPtok 30 "00" 16 6 44) (mkPtok 13 "]" 16 9 45))) (mkPtok 42 "body" 16 11 46) (Some (mkPtok 43 (string_of_bytes [96; 195; 169; 96]%N) 16 15 47)) (mkPtok 40 "," 16 19 48)))); (mkFieldWithAttr (mkSpan (mkPtok 9 "@tag(" 16 21 49) (mkPtok 40 "," 19 0 55)) [(FATag (mkSpan (mkPtok 9 "@tag(" 16 21 49) (mkPtok 6 ")" 18 0 52)) (mkTagAttr (mkSpan (mkPtok 9 "@tag(" 16 21 49) (mkPtok 6 ")" 18 0 52)) (mkPtok 9 "@tag(" 16 21 49) (mkPtok 30 "00" 17 0 50) (mkPtok 6 ")" 18 0 52)))] (ObjectField (mkSpan (mkPtok 42 "a1" 18 2 53) (mkPtok 40 "," 19 0 55)) None (mkPtok 42 "a1" 18 2 53) (Some (mkPtok 42 "i64_" 18 5 54)) None (mkPtok 40 "," 19 0 55))); (mkFieldWithAttr (mkSpan (mkPtok 42 "i8i8" 19 2 56) (mkPtok 40 "," 20 4 59)) [] (ObjectField (mkSpan (mkPtok 42 "i8i8" 19 2 56) (mkPtok 40 "," 20 4 59)) None (mkPtok 42 "i8i8" 19 2 56) (Some (mkPtok 42 "BodyLength" 19 7 57)) (Some (mkPtok 43 "`{ , }`" 19 18 58)) (mkPtok 40 "," 20 4 59))); (mkFieldWithAttr (mkSpan (mkPtok 38 "match" 20 6 60) (mkPtok 40 "," 32 0 100)) [] (MatchField (mkSpan (mkPtok 38 "match" 20 6 60) (mkPtok 40 "," 32 0 100)) (mkMatchFieldDecl (mkSpan (mkPtok 38 "match" 20 6 60) (mkPtok 3 "}" 31 33 98)) (mkPtok 38 "match" 20 6 60) (mkPtok 42 "crc" 21 4 61) (mkPtok 17 "as" 21 8 62) (mkPtok 42 "u8x" 21 11 63) (mkPtok 2 "{" 24 0 66) [(mkMatchPair (mkSpan (mkPtok 18 "[" 24 2 67) (mkPtok 40 "," 27 13 73)) (MKList (mkKeyList (mkSpan (mkPtok 18 "[" 24 2 67) (mkPtok 13 "]" 26 6 70)) (mkPtok 18 "[" 24 2 67) (mkPtok 30 "0" 26 4 69) [] (mkPtok 13 "]" 26 6 70))) (mkPtok 39 ":" 26 7 71) (mkPtok 42 "matchKey" 27 4 72) (Some (mkPtok 40 "," 27 13 73))); (mkMatchPair (mkSpan (mkPtok 18 "[" 27 15 74) (mkPtok 40 "," 30 11 83)) (MKList (mkKeyList (mkSpan (mkPtok 18 "[" 27 15 74) (mkPtok 13 "]" 30 6 80)) (mkPtok 18 "[" 27 15 74) (mkPtok 30 "0123456789" 27 17 75) [((mkPtok 40 "," 27 27 76), (mkPtok 31 """a\\""" 28 0 77)); ((mkPtok 40 "," 29 0 78), (mkPtok 31 """abc""" 30 0 79))] (mkPtok 13 "]" 30 6 80))) (mkPtok 39 ":" 30 7 81) (mkPtok 42 "As" 30 8 82) (Some (mkPtok 40 "," 30 11 83))); (mkMatchPair (mkSpan (mkPtok 31 (string_of_bytes [34; 240; 159; 152; 128; 34]%N) 30 13 84) (mkPtok 40 "," 30 22 87)) (MKString (mkPtok 31 (string_of_bytes [34; 240; 159; 152; 128; 34]%N) 30 13 84)) (mkPtok 39 ":" 30 17 85) (mkPtok 42 "tag" 30 19 86) (Some (mkPtok 40 "," 30 22 87))); (mkMatchPair (mkSpan (mkPtok 30 "7" 30 24 88) (mkPtok 40 "," 31 8 91)) (MKDigits (mkPtok 30 "7" 30 24 88)) (mkPtok 39 ":" 30 26 89) (mkPtok 42 "u8x" 31 4 90) (Some (mkPtok 40 "," 31 8 91))); (mkMatchPair (mkSpan (mkPtok 30 "42" 31 10 92) (mkPtok 42 "f32a" 31 15 94)) (MKDigits (mkPtok 30 "42" 31 10 92)) (mkPtok 39 ":" 31 13 93) (mkPtok 42 "f32a" 31 15 94) None); (mkMatchPair (mkSpan (mkPtok 30 "00" 31 20 95) (mkPtok 42 "options1" 31 24 97)) (MKDigits (mkPtok 30 "00" 31 20 95)) (mkPtok 39 ":" 31 23 96) (mkPtok 42 "options1" 31 24 97) None)] (mkPtok 3 "}" 31 33 98)) (mkPtok 40 "," 32 0 100)))] (mkPtok 3 "}" 32 1 101))); (DPacket (mkPacketDef (mkSpan (mkPtok 35 "packet" 32 3 102) (mkPtok 3 "}" 35 21 119)) None (mkPtok 35 "packet" 32 3 102) (mkPtok 42 "MetaDataX" 33 0 104) (mkPtok 2 "{" 33 9 105) [(mkFieldWithAttr (mkSpan (mkPtok 9 "@tag(" 33 10 106) (mkPtok 40 "," 35 19 118)) [(FATag (mkSpan (mkPtok 9 "@tag(" 33 10 106) (mkPtok 6 ")" 33 18 108)) (mkTagAttr (mkSpan (mkPtok 9 "@tag(" 33 10 106) (mkPtok 6 ")" 33 18 108)) (mkPtok 9 "@tag(" 33 10 106) (mkPtok 30 "42" 33 16 107) (mkPtok 6 ")" 33 18 108))); (FAPadding (mkSpan (mkPtok 32 "@leftPad" 33 19 109) (mkPtok 6 ")" 33 30 111)) (mkPaddingAttr (mkSpan (mkPtok 32 "@leftPad" 33 19 109) (mkPtok 6 ")" 33 30 111)) (mkPtok 32 "@leftPad" 33 19 109) (mkPtok 8 "(" 33 28 110) None (mkPtok 6 ")" 33 30 111))); (FAPadding (mkSpan (mkPtok 32 "@leftPad" 33 32 112) (mkPtok 6 ")" 35 6 115)) (mkPaddingAttr (mkSpan (mkPtok 32 "@leftPad" 33 32 112) (mkPtok 6 ")" 35 6 115)) (mkPtok 32 "@leftPad" 33 32 112) (mkPtok 8 "(" 35 4 114) None (mkPtok 6 ")" 35 6 115)))] (ObjectField (mkSpan (mkPtok 42 "body" 35 9 116) (mkPtok 40 "," 35 19 118)) None (mkPtok 42 "body" 35 9 116) (Some (mkPtok 42 "i64_" 35 14 117)) None (mkPtok 40 "," 35 19 118)))] (mkPtok 3 "}" 35 21 119))); (DPacket (mkPacketDef (mkSpan (mkPtok 35 "packet" 35 23 120) (mkPtok 3 "}" 49 0 191)) None (mkPtok 35 "packet" 35 23 120) (mkPtok 42 "int" 35 30 121) (mkPtok 2 "{" 35 33 122) [(mkFieldWithAttr (mkSpan (mkPtok 5 "@calculatedFrom(" 35 35 123) (mkPtok 40 "," 39 41 137)) [(FACalculatedFrom (mkSpan (mkPtok 5 "@calculatedFrom(" 35 35 123) (mkPtok 6 ")" 38 5 127)) (mkCalculatedFrom (mkSpan (mkPtok 5 "@calculatedFrom(" 35 35 123) (mkPtok 6 ")" 38 5 127)) (mkPtok 5 "@calculatedFrom(" 35 35 123) (mkPtok 31 (string_of_bytes [34; 195; 169; 116; 195; 169; 34]%N) 38 0 126) (mkPtok 6 ")" 38 5 127))); (FATag (mkSpan (mkPtok 9 "@tag(" 39 0 128) (mkPtok 6 ")" 39 8 130)) (mkTagAttr (mkSpan (mkPtok 9 "@tag(" 39 0 128) (mkPtok 6 ")" 39 8 130)) (mkPtok 9 "@tag(" 39 0 128) (mkPtok 30 "42" 39 5 129) (mkPtok 6 ")" 39 8 130))); (FAPadding (mkSpan (mkPtok 32 "@leftPad" 39 10 131) (mkPtok 6 ")" 39 28 134)) (mkPaddingAttr (mkSpan (mkPtok 32 "@leftPad" 39 10 131) (mkPtok 6 ")" 39 28 134)) (mkPtok 32 "@leftPad" 39 10 131) (mkPtok 8 "(" 39 19 132) (Some (mkPtok 33 "'\x00'" 39 21 133)) (mkPtok 6 ")" 39 28 134)))] (ObjectField (mkSpan (mkPtok 36 "repeat" 39 30 135) (mkPtok 40 "," 39 41 137)) (Some (mkPtok 36 "repeat" 39 30 135)) (mkPtok 42 "u8x" 39 37 136) None None (mkPtok 40 "," 39 41 137))); (mkFieldWithAttr (mkSpan (mkPtok 36 "repeat" 39 44 138) (mkPtok 40 "," 39 55 140)) [] (ObjectField (mkSpan (mkPtok 36 "repeat" 39 44 138) (mkPtok 40 "," 39 55 140)) (Some (mkPtok 36 "repeat" 39 44 138)) (mkPtok 42 "len" 39 51 139) None None (mkPtok 40 "," 39 55 140))); (mkFieldWithAttr (mkSpan (mkPtok 9 "@tag(" 39 57 141) (mkPtok 40 "," 44 0 169)) [(FATag (mkSpan (mkPtok 9 "@tag(" 39 57 141) (mkPtok 6 ")" 39 67 143)) (mkTagAttr (mkSpan (mkPtok 9 "@tag(" 39 57 141) (mkPtok 6 ")" 39 67 143)) (mkPtok 9 "@tag(" 39 57 141) (mkPtok 30 "255" 39 63 142) (mkPtok 6 ")" 39 67 143)))] (MatchField (mkSpan (mkPtok 38 "match" 39 68 144) (mkPtok 40 "," 44 0 169)) (mkMatchFieldDecl (mkSpan (mkPtok 38 "match" 39 68 144) (mkPtok 3 "}" 43 0 167)) (mkPtok 38 "match" 39 68 144) (mkPtok 42 "calculatedFrom" 39 74 145) (mkPtok 17 "as" 39 89 146) (mkPtok 42 "Z9_" 39 92 147) (mkPtok 2 "{" 39 96 148) [(mkMatchPair (mkSpan (mkPtok 31 """CRC32""" 39 99 149) (mkPtok 40 "," 39 112 152)) (MKString (mkPtok 31 """CRC32""" 39 99 149)) (mkPtok 39 ":" 39 107 150) (mkPtok 42 "len" 39 109 151) (Some (mkPtok 40 "," 39 112 152))); (mkMatchPair (mkSpan (mkPtok 31 """packet""" 39 113 153) (mkPtok 40 "," 39 130 156)) (MKString (mkPtok 31 """packet""" 39 113 153)) (mkPtok 39 ":" 39 122 154) (mkPtok 42 "falsey" 39 124 155) (Some (mkPtok 40 "," 39 130 156))); (mkMatchPair (mkSpan (mkPtok 18 "[" 39 132 157) (mkPtok 40 "," 42 8 166)) (MKList (mkKeyList (mkSpan (mkPtok 18 "[" 39 132 157) (mkPtok 13 "]" 41 0 162)) (mkPtok 18 "[" 39 132 157) (mkPtok 30 "65535" 39 133 158) [((mkPtok 40 "," 39 138 159), (mkPtok 30 "42" 40 0 160))] (mkPtok 13 "]" 41 0 162))) (mkPtok 39 ":" 42 0 164) (mkPtok 42 "charz" 42 2 165) (Some (mkPtok 40 "," 42 8 166)))] (mkPtok 3 "}" 43 0 167)) (mkPtok 40 "," 44 0 169))); (mkFieldWithAttr (mkSpan (mkPtok 42 "i8i8" 44 1 170) (mkPtok 40 "," 44 6 171)) [] (ObjectField (mkSpan (mkPtok 42 "i8i8" 44 1 170) (mkPtok 40 "," 44 6 171)) None (mkPtok 42 "i8i8" 44 1 170) None None (mkPtok 40 "," 44 6 171))); (mkFieldWithAttr (mkSpan (mkPtok 38 "match" 44 7 172) (mkPtok 40 "," 47 16 183)) [] (MatchField (mkSpan (mkPtok 38 "match" 44 7 172) (mkPtok 40 "," 47 16 183)) (mkMatchFieldDecl (mkSpan (mkPtok 38 "match" 44 7 172) (mkPtok 3 "}" 47 14 182)) (mkPtok 38 "match" 44 7 172) (mkPtok 42 "i8i8" 45 0 173) (mkPtok 17 "as" 46 4 174) (mkPtok 42 "Foo" 46 7 175) (mkPtok 2 "{" 47 0 177) [(mkMatchPair (mkSpan (mkPtok 31 """a\\""" 47 2 178) (mkPtok 40 "," 47 12 181)) (MKString (mkPtok 31 """a\\""" 47 2 178)) (mkPtok 39 ":" 47 8 179) (mkPtok 42 "x" 47 10 180) (Some (mkPtok 40 "," 47 12 181)))] (mkPtok 3 "}" 47 14 182)) (mkPtok 40 "," 47 16 183))); (mkFieldWithAttr (mkSpan (mkPtok 32 "@leftPad" 47 18 184) (mkPtok 40 "," 48 24 190)) [(FAPadding (mkSpan (mkPtok 32 "@leftPad" 47 18 184) (mkPtok 6 ")" 48 2 186)) (mkPaddingAttr (mkSpan (mkPtok 32 "@leftPad" 47 18 184) (mkPtok 6 ")" 48 2 186)) (mkPtok 32 "@leftPad" 47 18 184) (mkPtok 8 "(" 48 0 185) None (mkPtok 6 ")" 48 2 186)))] (MetaField (mkSpan (mkPtok 19 "char" 48 4 187) (mkPtok 40 "," 48 24 190)) None (mkMetaDecl (mkSpan (mkPtok 19 "char" 48 4 187) (mkPtok 40 "," 48 24 190)) (TyBasic (mkSpan (mkPtok 19 "char" 48 4 187) (mkPtok 19 "char" 48 4 187)) (mkBasicType (mkSpan (mkPtok 19 "char" 48 4 187) (mkPtok 19 "char" 48 4 187)) (mkPtok 19 "char" 48 4 187))) (mkPtok 42 "crc" 48 9 188) (Some (mkPtok 43 "`say ""hi""`" 48 13 189)) (mkPtok 40 "," 48 24 190))))] (mkPtok 3 "}" 49 0 191))); (DOption (mkOptionDef (mkSpan (mkPtok 1 "options" 49 2 192) (mkPtok 3 "}" 54 4 206)) (mkPtok 1 "options" 49 2 192) (mkPtok 2 "{" 49 10 193) [(mkOptionDecl (mkSpan (mkPtok 42 "Pad" 49 12 194) (mkPtok 41 ";" 52 1 200)) (mkPtok 42 "Pad" 49 12 194) (mkPtok 4 "=" 49 16 195) (VType (mkSpan (mkPtok 14 "zchar[" 50 4 196) (mkPtok 13 "]" 52 0 199)) (TyFixed (mkSpan (mkPtok 14 "zchar[" 50 4 196) (mkPtok 13 "]" 52 0 199)) (mkFixedString (mkSpan (mkPtok 14 "zchar[" 50 4 196) (mkPtok 13 "]" 52 0 199)) (mkPtok 14 "zchar[" 50 4 196) (mkPtok 30 "0" 51 0 198) (mkPtok 13 "]" 52 0 199)))) (Some (mkPtok 41 ";" 52 1 200))); (mkOptionDecl (mkSpan (mkPtok 42 "pack" 52 3 201) (mkPtok 41 ";" 53 0 205)) (mkPtok 42 "pack" 52 3 201) (mkPtok 4 "=" 52 7 202) (VString (mkSpan (mkPtok 31 """""" 52 8 203) (mkPtok 31 """""" 52 8 203)) (mkPtok 31 """""" 52 8 203)) (Some (mkPtok 41 ";" 53 0 205)))] (mkPtok 3 "}" 54 4 206))); (DPacket (mkPacketDef (mkSpan (mkPtok 34 "root" 54 6 207) (mkPtok 3 "}" 73 0 286)) (Some (mkPtok 34 "root" 54 6 207)) (mkPtok 35 "packet" 55 4 208) (mkPtok 42 "lengthOf" 55 11 209) (mkPtok 2 "{" 56 0 210) [(mkFieldWithAttr (mkSpan (mkPtok 32 "@leftPad" 56 2 211) (mkPtok 40 "," 61 5 222)) [(FAPadding (mkSpan (mkPtok 32 "@leftPad" 56 2 211) (mkPtok 6 ")" 56 16 214)) (mkPaddingAttr (mkSpan (mkPtok 32 "@leftPad" 56 2 211) (mkPtok 6 ")" 56 16 214)) (mkPtok 32 "@leftPad" 56 2 211) (mkPtok 8 "(" 56 11 212) (Some (mkPtok 33 "'0'" 56 12 213)) (mkPtok 6 ")" 56 16 214)))] (CheckSumField (mkSpan (mkPtok 42 "A" 56 18 215) (mkPtok 40 "," 61 5 222)) (mkChecksumFieldDecl (mkSpan (mkPtok 42 "A" 56 18 215) (mkPtok 40 "," 61 5 222)) None (mkPtok 42 "A" 56 18 215) (mkCalculatedFrom (mkSpan (mkPtok 5 "@calculatedFrom(" 58 4 217) (mkPtok 6 ")" 61 4 221)) (mkPtok 5 "@calculatedFrom(" 58 4 217) (mkPtok 31 (string_of_bytes [34; 92; 195; 169; 34]%N) 61 0 220) (mkPtok 6 ")" 61 4 221)) None (mkPtok 40 "," 61 5 222)))); (mkFieldWithAttr (mkSpan (mkPtok 5 "@calculatedFrom(" 61 6 223) (mkPtok 40 "," 63 10 231)) [(FACalculatedFrom (mkSpan (mkPtok 5 "@calculatedFrom(" 61 6 223) (mkPtok 6 ")" 62 0 226)) (mkCalculatedFrom (mkSpan (mkPtok 5 "@calculatedFrom(" 61 6 223) (mkPtok 6 ")" 62 0 226)) (mkPtok 5 "@calculatedFrom(" 61 6 223) (mkPtok 31 """abc""" 61 23 224) (mkPtok 6 ")" 62 0 226)))] (MetaField (mkSpan (mkPtok 36 "repeat" 62 3 227) (mkPtok 40 "," 63 10 231)) (Some (mkPtok 36 "repeat" 62 3 227)) (mkMetaDecl (mkSpan (mkPtok 16 "char[]" 63 0 229) (mkPtok 40 "," 63 10 231)) (TyDynamic (mkSpan (mkPtok 16 "char[]" 63 0 229) (mkPtok 16 "char[]" 63 0 229)) (mkDynamicString (mkSpan (mkPtok 16 "char[]" 63 0 229) (mkPtok 16 "char[]" 63 0 229)) (mkPtok 16 "char[]" 63 0 229))) (mkPtok 42 "a1" 63 7 230) None (mkPtok 40 "," 63 10 231)))); (mkFieldWithAttr (mkSpan (mkPtok 36 "repeat" 63 11 232) (mkPtok 40 "," 63 32 235)) [] (ObjectField (mkSpan (mkPtok 36 "repeat" 63 11 232) (mkPtok 40 "," 63 32 235)) (Some (mkPtok 36 "repeat" 63 11 232)) (mkPtok 42 "int" 63 18 233) (Some (mkPtok 42 "trueish" 63 23 234)) None (mkPtok 40 "," 63 32 235))); (mkFieldWithAttr (mkSpan (mkPtok 32 "@rightPad" 63 34 236) (mkPtok 40 "," 66 22 245)) [(FAPadding (mkSpan (mkPtok 32 "@rightPad" 63 34 236) (mkPtok 6 ")" 65 4 239)) (mkPaddingAttr (mkSpan (mkPtok 32 "@rightPad" 63 34 236) (mkPtok 6 ")" 65 4 239)) (mkPtok 32 "@rightPad" 63 34 236) (mkPtok 8 "(" 63 43 237) (Some (mkPtok 33 "'\x00'" 64 4 238)) (mkPtok 6 ")" 65 4 239)))] (MetaField (mkSpan (mkPtok 14 "zchar[" 66 0 241) (mkPtok 40 "," 66 22 245)) None (mkMetaDecl (mkSpan (mkPtok 14 "zchar[" 66 0 241) (mkPtok 40 "," 66 22 245)) (TyFixed (mkSpan (mkPtok 14 "zchar[" 66 0 241) (mkPtok 13 "]" 66 17 243)) (mkFixedString (mkSpan (mkPtok 14 "zchar[" 66 0 241) (mkPtok 13 "]" 66 17 243)) (mkPtok 14 "zchar[" 66 0 241) (mkPtok 30 "4294967296" 66 6 242) (mkPtok 13 "]" 66 17 243))) (mkPtok 42 "_x" 66 19 244) None (mkPtok 40 "," 66 22 245)))); (mkFieldWithAttr (mkSpan (mkPtok 36 "repeat" 66 23 246) (mkPtok 40 "," 68 2 250)) [] (ObjectField (mkSpan (mkPtok 36 "repeat" 66 23 246) (mkPtok 40 "," 68 2 250)) (Some (mkPtok 36 "repeat" 66 23 246)) (mkPtok 42 "stringy" 67 0 247) (Some (mkPtok 42 "x" 68 0 249)) None (mkPtok 40 "," 68 2 250))); (mkFieldWithAttr (mkSpan (mkPtok 9 "@tag(" 68 3 251) (mkPtok 40 "," 68 47 262)) [(FATag (mkSpan (mkPtok 9 "@tag(" 68 3 251) (mkPtok 6 ")" 68 13 253)) (mkTagAttr (mkSpan (mkPtok 9 "@tag(" 68 3 251) (mkPtok 6 ")" 68 13 253)) (mkPtok 9 "@tag(" 68 3 251) (mkPtok 30 "00" 68 9 252) (mkPtok 6 ")" 68 13 253))); (FALengthOf (mkSpan (mkPtok 7 "@lengthOf(" 68 15 254) (mkPtok 6 ")" 68 30 256)) (mkLengthOf (mkSpan (mkPtok 7 "@lengthOf(" 68 15 254) (mkPtok 6 ")" 68 30 256)) (mkPtok 7 "@lengthOf(" 68 15 254) (mkPtok 42 "int" 68 26 255) (mkPtok 6 ")" 68 30 256))); (FATag (mkSpan (mkPtok 9 "@tag(" 68 33 257) (mkPtok 6 ")" 68 40 259)) (mkTagAttr (mkSpan (mkPtok 9 "@tag(" 68 33 257) (mkPtok 6 ")" 68 40 259)) (mkPtok 9 "@tag(" 68 33 257) (mkPtok 30 "0" 68 39 258) (mkPtok 6 ")" 68 40 259)))] (MetaField (mkSpan (mkPtok 20 "u8" 68 42 260) (mkPtok 40 "," 68 47 262)) None (mkMetaDecl (mkSpan (mkPtok 20 "u8" 68 42 260) (mkPtok 40 "," 68 47 262)) (TyBasic (mkSpan (mkPtok 20 "u8" 68 42 260) (mkPtok 20 "u8" 68 42 260)) (mkBasicType (mkSpan (mkPtok 20 "u8" 68 42 260) (mkPtok 20 "u8" 68 42 260)) (mkPtok 20 "u8" 68 42 260))) (mkPtok 42 "T" 68 45 261) None (mkPtok 40 "," 68 47 262)))); (mkFieldWithAttr (mkSpan (mkPtok 9 "@tag(" 69 0 263) (mkPtok 40 "," 70 47 276)) [(FATag (mkSpan (mkPtok 9 "@tag(" 69 0 263) (mkPtok 6 ")" 69 7 265)) (mkTagAttr (mkSpan (mkPtok 9 "@tag(" 69 0 263) (mkPtok 6 ")" 69 7 265)) (mkPtok 9 "@tag(" 69 0 263) (mkPtok 30 "1" 69 5 264) (mkPtok 6 ")" 69 7 265))); (FALengthOf (mkSpan (mkPtok 7 "@lengthOf(" 69 9 266) (mkPtok 6 ")" 70 3 268)) (mkLengthOf (mkSpan (mkPtok 7 "@lengthOf(" 69 9 266) (mkPtok 6 ")" 70 3 268)) (mkPtok 7 "@lengthOf(" 69 9 266) (mkPtok 42 "a1" 70 0 267) (mkPtok 6 ")" 70 3 268))); (FACalculatedFrom (mkSpan (mkPtok 5 "@calculatedFrom(" 70 5 269) (mkPtok 6 ")" 70 29 271)) (mkCalculatedFrom (mkSpan (mkPtok 5 "@calculatedFrom(" 70 5 269) (mkPtok 6 ")" 70 29 271)) (mkPtok 5 "@calculatedFrom(" 70 5 269) (mkPtok 31 """it's""" 70 22 270) (mkPtok 6 ")" 70 29 271)))] (MetaField (mkSpan (mkPtok 12 "char[" 70 31 272) (mkPtok 40 "," 70 47 276)) None (mkMetaDecl (mkSpan (mkPtok 12 "char[" 70 31 272) (mkPtok 40 "," 70 47 276)) (TyFixed (mkSpan (mkPtok 12 "char[" 70 31 272) (mkPtok 13 "]" 70 40 274)) (mkFixedString (mkSpan (mkPtok 12 "char[" 70 31 272) (mkPtok 13 "]" 70 40 274)) (mkPtok 12 "char[" 70 31 272) (mkPtok 30 "10" 70 37 273) (mkPtok 13 "]" 70 40 274))) (mkPtok 42 "body" 70 42 275) None (mkPtok 40 "," 70 47 276)))); (mkFieldWithAttr (mkSpan (mkPtok 7 "@lengthOf(" 70 50 277) (mkPtok 40 "," 72 23 284)) [(FALengthOf (mkSpan (mkPtok 7 "@lengthOf(" 70 50 277) (mkPtok 6 ")" 70 66 279)) (mkLengthOf (mkSpan (mkPtok 7 "@lengthOf(" 70 50 277) (mkPtok 6 ")" 70 66 279)) (mkPtok 7 "@lengthOf(" 70 50 277) (mkPtok 42 "f32a" 70 61 278) (mkPtok 6 ")" 70 66 279)))] (CheckSumField (mkSpan (mkPtok 42 "rootA" 71 4 280) (mkPtok 40 "," 72 23 284)) (mkChecksumFieldDecl (mkSpan (mkPtok 42 "rootA" 71 4 280) (mkPtok 40 "," 72 23 284)) None (mkPtok 42 "rootA" 71 4 280) (mkCalculatedFrom (mkSpan (mkPtok 5 "@calculatedFrom(" 72 0 281) (mkPtok 6 ")" 72 22 283)) (mkPtok 5 "@calculatedFrom(" 72 0 281) (mkPtok 31 """{,}""" 72 16 282) (mkPtok 6 ")" 72 22 283)) None (mkPtok 40 "," 72 23 284))))] (mkPtok 3 "}" 73 0 286)))])).
-Eval vm_compute in ("<<<M135>>>" ++ check (runes_of_ascii "MetaData
-    charz { } packet
+    T	,
+    match
+_x as
+leftPad {
+0123456789  : stringy, }
+    ,
+@leftPad ( )
+    repeat
+uint8x { string_{ char[	255]
+a1 @calculatedFrom(
     // " ++ [27880; 37322]%N ++ runes_of_ascii "
-    matchKey {
-    a1
-    repeatCount
-    , }
-")).
-Eval vm_compute in ("<<<M145>>>" ++ check (runes_of_ascii "MetaData
-packetx {  zchar[7
-]u128 , }
-")).
-Eval vm_compute in ("<<<M155>>>" ++ check (runes_of_ascii "packet Foo  { Logon A`a\`, a1 A
-, @lengthOf(
-//	t
-// trailing space 
-tag ) // trailing space 
-x_y_z
-@lengthOf( leftPad
-    ) `it's`, @tag( 255 ) match crc// @lengthOf(
-as  roots {
-""" ++ [233]%N ++ runes_of_ascii "t" ++ [233]%N ++ runes_of_ascii """	:Foo ,[ 10 , 007 //
-, // a // b
-""" ++ [233]%N ++ runes_of_ascii "t" ++ [233]%N ++ runes_of_ascii """ ,
-// c
-// @lengthOf(
-""a	b""]
-    :x_y_z}
-    , // @lengthOf(
-}  root packet As { }	MetaData calculatedFrom // trailing space 
-{ Z9_ _x ``	,
-} MetaData tag { // " ++ [27880; 37322]%N ++ runes_of_ascii "
-string body , string options1 ,i8i8 pack, }
-")).
-Eval vm_compute in ("<<<M165>>>" ++ check (runes_of_ascii "options { x_y_z =
-true;a1 = true ;
-options1  =
-    true  ; }
-")).
-Eval vm_compute in ("<<<M175>>>" ++ check (runes_of_ascii "root packet leftPad
-    { f32a	tag ,
-    }
-")).
-Eval vm_compute in ("<<<M185>>>" ++ check (runes_of_ascii "
-packet
-// packet A { u8 x, }
-// " ++ [27880; 37322]%N ++ runes_of_ascii "
-matchKey {} packet
-    string_ { matchKey @lengthOf(
-asx)
-    ,@rightPad ( ' '
-) metadata
-,
-// a // b
-// @lengthOf(
-o //
-chars ,  uint16 tag `u8 x,` ,
-repeat  float32 Logon  `two words` , /// triple
-matchKey	@calculatedFrom( ""a	b""
-)`doc`
-    ,
-repeat packetx
-a1 ,} MetaData Packet //
-{
-char[]
-    pack, string  zchar ,zchar[
-//	t
-// trailing space 
-1 ] x_y_z, int64
-    charz
-`say ""hi""`, u32
-lengthOf
-    `doc`
+    ""abc"" ) , metadata
+@lengthOf( asx
+    ) // packet A { u8 x, }
 ,}
-options
-    { a1
-= int16 ; crc =' ';tag = char[ 42]
-leftPad
-    = true ; }")).
-Eval vm_compute in ("<<<M195>>>" ++ check (runes_of_ascii "packet options1 {// " ++ [128512]%N ++ runes_of_ascii " emoji
-@calculatedFrom( ""abc""
-) //
-repeat BodyLength , a1
-@lengthOf(
-    // trailing space 
-    i8i8
-    // " ++ [128512]%N ++ runes_of_ascii " emoji
-    ) ,
-    } packet	asx
-    {char[ 0] o`crlf
-line`
-,char[] options1 `crlf
-line`
+//	t
+// " ++ [27880; 37322]%N ++ runes_of_ascii "
 ,
-@tag( 42 )
-    repeat Foo  ,
-asx @calculatedFrom(
-    ""`tick`"") ,}")).
-Eval vm_compute in ("<<<T195>>>" ++ terms [mkTok 35 "packet" 1 0 false; mkTok 42 "options1" 1 7 false; mkTok 2 "{" 1 16 false; mkTok 44 (string_of_bytes [47; 47; 32; 240; 159; 152; 128; 32; 101; 109; 111; 106; 105]%N) 1 17 true; mkTok 5 "@calculatedFrom(" 2 0 false; mkTok 31 """abc""" 2 17 false; mkTok 6 ")" 3 0 false; mkTok 44 "//" 3 2 true; mkTok 36 "repeat" 4 0 false; mkTok 42 "BodyLength" 4 7 false; mkTok 40 "," 4 18 false; mkTok 42 "a1" 4 20 false; mkTok 7 "@lengthOf(" 5 0 false; mkTok 44 "// trailing space " 6 4 true; mkTok 42 "i8i8" 7 4 false; mkTok 44 (string_of_bytes [47; 47; 32; 240; 159; 152; 128; 32; 101; 109; 111; 106; 105]%N) 8 4 true; mkTok 6 ")" 9 4 false; mkTok 40 "," 9 6 false; mkTok 3 "}" 10 4 false; mkTok 35 "packet" 10 6 false; mkTok 42 "asx" 10 13 false; mkTok 2 "{" 11 4 false; mkTok 12 "char[" 11 5 false; mkTok 30 "0" 11 11 false; mkTok 13 "]" 11 12 false; mkTok 42 "o" 11 14 false; mkTok 43 (string_of_bytes [96; 99; 114; 108; 102; 13; 10; 108; 105; 110; 101; 96]%N) 11 15 false; mkTok 40 "," 13 0 false; mkTok 16 "char[]" 13 1 false; mkTok 42 "options1" 13 8 false; mkTok 43 (string_of_bytes [96; 99; 114; 108; 102; 13; 10; 108; 105; 110; 101; 96]%N) 13 17 false; mkTok 40 "," 15 0 false; mkTok 9 "@tag(" 16 0 false; mkTok 30 "42" 16 6 false; mkTok 6 ")" 16 9 false; mkTok 36 "repeat" 17 4 false; mkTok 42 "Foo" 17 11 false; mkTok 40 "," 17 16 false; mkTok 42 "asx" 18 0 false; mkTok 5 "@calculatedFrom(" 18 4 false; mkTok 31 """`tick`""" 19 4 false; mkTok 6 ")" 19 12 false; mkTok 40 "," 19 14 false; mkTok 3 "}" 19 15 false; mkTok 0 "<EOF>" 19 16 false] (mkPacket (mkPtok 35 "packet" 1 0 0) (Some (mkPtok 3 "}" 19 15 43)) [(DPacket (mkPacketDef (mkSpan (mkPtok 35 "packet" 1 0 0) (mkPtok 3 "}" 10 4 18)) None (mkPtok 35 "packet" 1 0 0) (mkPtok 42 "options1" 1 7 1) (mkPtok 2 "{" 1 16 2) [(mkFieldWithAttr (mkSpan (mkPtok 5 "@calculatedFrom(" 2 0 4) (mkPtok 40 "," 4 18 10)) [(FACalculatedFrom (mkSpan (mkPtok 5 "@calculatedFrom(" 2 0 4) (mkPtok 6 ")" 3 0 6)) (mkCalculatedFrom (mkSpan (mkPtok 5 "@calculatedFrom(" 2 0 4) (mkPtok 6 ")" 3 0 6)) (mkPtok 5 "@calculatedFrom(" 2 0 4) (mkPtok 31 """abc""" 2 17 5) (mkPtok 6 ")" 3 0 6)))] (ObjectField (mkSpan (mkPtok 36 "repeat" 4 0 8) (mkPtok 40 "," 4 18 10)) (Some (mkPtok 36 "repeat" 4 0 8)) (mkPtok 42 "BodyLength" 4 7 9) None None (mkPtok 40 "," 4 18 10))); (mkFieldWithAttr (mkSpan (mkPtok 42 "a1" 4 20 11) (mkPtok 40 "," 9 6 17)) [] (LengthField (mkSpan (mkPtok 42 "a1" 4 20 11) (mkPtok 40 "," 9 6 17)) (mkLengthFieldDecl (mkSpan (mkPtok 42 "a1" 4 20 11) (mkPtok 40 "," 9 6 17)) None (mkPtok 42 "a1" 4 20 11) (mkLengthOf (mkSpan (mkPtok 7 "@lengthOf(" 5 0 12) (mkPtok 6 ")" 9 4 16)) (mkPtok 7 "@lengthOf(" 5 0 12) (mkPtok 42 "i8i8" 7 4 14) (mkPtok 6 ")" 9 4 16)) None (mkPtok 40 "," 9 6 17))))] (mkPtok 3 "}" 10 4 18))); (DPacket (mkPacketDef (mkSpan (mkPtok 35 "packet" 10 6 19) (mkPtok 3 "}" 19 15 43)) None (mkPtok 35 "packet" 10 6 19) (mkPtok 42 "asx" 10 13 20) (mkPtok 2 "{" 11 4 21) [(mkFieldWithAttr (mkSpan (mkPtok 12 "char[" 11 5 22) (mkPtok 40 "," 13 0 27)) [] (MetaField (mkSpan (mkPtok 12 "char[" 11 5 22) (mkPtok 40 "," 13 0 27)) None (mkMetaDecl (mkSpan (mkPtok 12 "char[" 11 5 22) (mkPtok 40 "," 13 0 27)) (TyFixed (mkSpan (mkPtok 12 "char[" 11 5 22) (mkPtok 13 "]" 11 12 24)) (mkFixedString (mkSpan (mkPtok 12 "char[" 11 5 22) (mkPtok 13 "]" 11 12 24)) (mkPtok 12 "char[" 11 5 22) (mkPtok 30 "0" 11 11 23) (mkPtok 13 "]" 11 12 24))) (mkPtok 42 "o" 11 14 25) (Some (mkPtok 43 (string_of_bytes [96; 99; 114; 108; 102; 13; 10; 108; 105; 110; 101; 96]%N) 11 15 26)) (mkPtok 40 "," 13 0 27)))); (mkFieldWithAttr (mkSpan (mkPtok 16 "char[]" 13 1 28) (mkPtok 40 "," 15 0 31)) [] (MetaField (mkSpan (mkPtok 16 "char[]" 13 1 28) (mkPtok 40 "," 15 0 31)) None (mkMetaDecl (mkSpan (mkPtok 16 "char[]" 13 1 28) (mkPtok 40 "," 15 0 31)) (TyDynamic (mkSpan (mkPtok 16 "char[]" 13 1 28) (mkPtok 16 "char[]" 13 1 28)) (mkDynamicString (mkSpan (mkPtok 16 "char[]" 13 1 28) (mkPtok 16 "char[]" 13 1 28)) (mkPtok 16 "char[]" 13 1 28))) (mkPtok 42 "options1" 13 8 29) (Some (mkPtok 43 (string_of_bytes [96; 99; 114; 108; 102; 13; 10; 108; 105; 110; 101; 96]%N) 13 17 30)) (mkPtok 40 "," 15 0 31)))); (mkFieldWithAttr (mkSpan (mkPtok 9 "@tag(" 16 0 32) (mkPtok 40 "," 17 16 37)) [(FATag (mkSpan (mkPtok 9 "@tag(" 16 0 32) (mkPtok 6 ")" 16 9 34)) (mkTagAttr (mkSpan (mkPtok 9 "@tag(" 16 0 32) (mkPtok 6 ")" 16 9 34)) (mkPtok 9 "@tag(" 16 0 32) (mkPtok 30 "42" 16 6 33) (mkPtok 6 ")" 16 9 34)))] (ObjectField (mkSpan (mkPtok 36 "repeat" 17 4 35) (mkPtok 40 "," 17 16 37)) (Some (mkPtok 36 "repeat" 17 4 35)) (mkPtok 42 "Foo" 17 11 36) None None (mkPtok 40 "," 17 16 37))); (mkFieldWithAttr (mkSpan (mkPtok 42 "asx" 18 0 38) (mkPtok 40 "," 19 14 42)) [] (CheckSumField (mkSpan (mkPtok 42 "asx" 18 0 38) (mkPtok 40 "," 19 14 42)) (mkChecksumFieldDecl (mkSpan (mkPtok 42 "asx" 18 0 38) (mkPtok 40 "," 19 14 42)) None (mkPtok 42 "asx" 18 0 38) (mkCalculatedFrom (mkSpan (mkPtok 5 "@calculatedFrom(" 18 4 39) (mkPtok 6 ")" 19 12 41)) (mkPtok 5 "@calculatedFrom(" 18 4 39) (mkPtok 31 """`tick`""" 19 4 40) (mkPtok 6 ")" 19 12 41)) None (mkPtok 40 "," 19 14 42))))] (mkPtok 3 "}" 19 15 43)))])).
-Eval vm_compute in ("<<<M205>>>" ++ check (runes_of_ascii "MetaData
-    //x
-    body
-    // a // b
-    { BodyLength stringy ,
-    //	t
-    zchar[ 42 ] o
-    ,
-i64_ lengthOf `{ , }` ,u8 MetaDataX  , }")).
-Eval vm_compute in ("<<<M215>>>" ++ check (runes_of_ascii "MetaData
-T { Foo  lengthOf , string
-    //x
-    packetx
-    `// not a comment` , zchar[
-    //	t
-    0] metadata
-//x
-// `tick` ""quote"" 'q'
-`crlf
-line` ,
-x string_
-`line1
-line2` , } packet repeatCount {	char[ // `tick` ""quote"" 'q'
-255 ]
-A @calculatedFrom(""a\\"" )
-,float32
-    BodyLength @lengthOf(	_x )
-// c
-//
-`doc` , char[] trueish
-    // " ++ [128512]%N ++ runes_of_ascii " emoji
-    @calculatedFrom( ""packet"")
-    ,}
-")).
-Eval vm_compute in ("<<<M225>>>" ++ check (runes_of_ascii "MetaData msg_type { }root
-    packet T{@rightPad (
+    repeat
+    falsey , Logon {As,
+    repeat char[] u , }, }  , @leftPad (' ' // a // b
+)	char[10
+] charz @lengthOf(float
     )
-    repeat char[ 3 ]	x_y_z ,
-    @lengthOf(
-roots  ) string	i64_ @lengthOf(
-u8x // a // b
-) `// not a comment`	,}")).
-Eval vm_compute in ("<<<M235>>>" ++ check (runes_of_ascii "MetaData trueish { u64// trailing space 
-i8i8 , }")).
-Eval vm_compute in ("<<<M245>>>" ++ check (runes_of_ascii "MetaData As {  } packet float { // @lengthOf(
-options1  Pad `// not a comment` ,
-uint16 As `line1
-line2` ,float32 stringy@calculatedFrom(
-""`tick`""
-) `" ++ [233]%N ++ runes_of_ascii "` ,
-repeat Packet { zchar[ 3 ] T
-    @calculatedFrom(
-""x y""),  char[ 7 ]  asx @lengthOf( tag) ,
-    //
-    int64 charz `u8 x,`
-, } , uint32
-len , @tag(	0123456789
-) Foo packetx `// not a comment`,char[] trueish @lengthOf(
-rootA
-    ) , @leftPad (//
-'0'  ) repeat  x_y_z `{ , }` , i64 u128 ,
-    }
-    packet msg_type//x
-{
-char[]
-i8i8
-    `doc` //	t
-,string trueish @calculatedFrom(
-    """" ), char[ 7 ]/// triple
-string_// packet A { u8 x, }
-`say ""hi""`
-/// triple
-//
-,	}
-")).
-Eval vm_compute in ("<<<M255>>>" ++ check (runes_of_ascii "root packet  roots
-{ falsey@calculatedFrom(""a\""b"" ) ,
-    @lengthOf(
-A )Header @calculatedFrom( ""packet""
-) `u8 x,` ,
-@leftPad  (' '
-) @lengthOf(
-    calculatedFrom)
+    // 50% %s
+    ,@calculatedFrom( """ ++ [233]%N ++ runes_of_ascii "t" ++ [233]%N ++ runes_of_ascii """)
+i64 trueish `" ++ [28040; 24687; 31867; 22411]%N ++ runes_of_ascii "` // `tick` ""quote"" 'q'
+,
+}options
+// c
+// a // b
+{ options1 =  7 ; u =
+""""
+    ;
+} root packet
+Packet {
+char As `` ,
+    repeat leftPad //x
+{match
+    x_y_z
+    as x_y_z	{	""abc"" : f32a
+    [
+    1
+    //x
+    ,42 ]
+:	rootA
+, 7 : pack	,
+    ""abc""
+    : _x
+""1""  :	asx, ""packet"" :int// trailing space 
+}
+, }// a // b
+, @calculatedFrom( ""\n"" )repeat
+    f64 u8x
+, @lengthOf(
+    zchar )
+    o,
+    pack @lengthOf(
+falsey ) `two words` , zchar[ 1]asx @lengthOf( uint8x)
+    , @calculatedFrom( ""\n""
+// c
+// 50% %s
+)
+    char[ 42 ] // a // b
+u @calculatedFrom(""packet"" )
+    , match // " ++ [27880; 37322]%N ++ runes_of_ascii "
+rootA as i8i8{ 00
 // `tick` ""quote"" 'q'
 // packet A { u8 x, }
-match rootA as x_y_z {42	:
-    //	t
-    len, }, } options //x
-{ chars =// c
-4294967296 ;
-    BodyLength
-    = 0123456789 roots
-    = ""a\""b"";
-} //")).
-Eval vm_compute in ("<<<M265>>>" ++ check (runes_of_ascii "MetaData metadata { // `tick` ""quote"" 'q'
-msg_type
-Pad
-    , int8
-calculatedFrom, } MetaData msg_type{// packet A { u8 x, }
+: A ,	0 : o 0123456789
+    :
+len	,
+    65535 : zchar
+    } ,
 }
-packet // a // b
-len {_x , }
-options { As =
-// a // b
-// c
-true
-; // " ++ [27880; 37322]%N ++ runes_of_ascii "
-repeatCount
-    ='\x00' ; uint8x // packet A { u8 x, }
-= ""\" ++ [233]%N ++ runes_of_ascii """;
-    chars= true
-; }
-// " ++ [27880; 37322]%N ++ runes_of_ascii "
-// `tick` ""quote"" 'q'
-packet crc {matchKey @lengthOf( float	) ,
-@leftPad ( '0'
-    ) match	i8i8 as x
-{[ // " ++ [128512]%N ++ runes_of_ascii " emoji
-65535 ,
-    // trailing space 
-    10 , 4294967296
-] :repeatCount ,  ""// no comment"": stringy
-    ,} ,
-    @calculatedFrom(	""a	b""
-)crc
-// " ++ [27880; 37322]%N ++ runes_of_ascii "
+//
+")).
+Eval vm_compute in ("<<<M215>>>" ++ check (runes_of_ascii "packet i8i8  { string
+    // `tick` ""quote"" 'q'
+    string_ `crlf
+line`
+    , pack , As
 // trailing space 
-,
-    /// triple
+// trailing space 
+@calculatedFrom( ""a	b""
+    ) ,  f32 body
+`tab	here` , repeatCount
+@calculatedFrom( """ ++ [28040; 24687]%N ++ runes_of_ascii """), char[  255 ] packetx , @calculatedFrom(
+    ""\" ++ [233]%N ++ runes_of_ascii """ ) @calculatedFrom(  ""abc""  ) @rightPad ( ) // @lengthOf(
+x`two words` , @calculatedFrom( ""a	b"")i32 stringy
+    , @rightPad // trailing space 
+()
+    Header
+    `tab	here`	,
+} packet i64_ {
+@rightPad ( )
+    char[
+10 ]i8i8	, u {
+char[]
+    roots
+    @calculatedFrom(
+""a\\"" // trailing space 
+) `it's` , } , len charz , float64 Z9_, int64 asx
+@lengthOf(
+    stringy ) `doc` ,uint8 repeatCount , uint16 i64_ , }
+MetaData// c
+Header {
+    // c
     }
+    packet As // a // b
+{ match //	t
+uint8x as tag {[
+    ""CRC32"" ,
+""it's""  , 1
+    , ""{,}"" ,
+"""" ] // c
+: charz ,
+""""
+    //
+    : asx } ,//x
+}
+    packet lengthOf
+{ string_
+@lengthOf(f32a// c
+) `say ""hi""`  ,
+    @leftPad// `tick` ""quote"" 'q'
+(//	t
+) char[] matchKey ,repeat
+    float32
+Packet `crlf
+line`, @tag( 255
+/// triple
+//	t
+) float { repeat
+x
+    {
+int , int16
+Packet@calculatedFrom(  """")
+    , } ,trueish { match calculatedFrom	as// @lengthOf(
+matchKey {  [
+10 ]  :Foo, ""\n""  :MetaDataX // `tick` ""quote"" 'q'
+,}
+, u16 options1
+// 50% %s
+// 50% %s
+`line1
+line2`, } ,
+a1
+crc
+    `{ , }` ,repeat zchar `` ,
+}	,
+// 50% %s
+//	t
+@tag(// `tick` ""quote"" 'q'
+4294967296	)@tag( 007/// triple
+)
+    @calculatedFrom(
+    """" )
+i16 _x ``, @leftPad( '0' ) repeat	uint16 roots
+    ,repeat stringy{Header{
+// @lengthOf(
+// " ++ [27880; 37322]%N ++ runes_of_ascii "
+i16 As @calculatedFrom( ""\" ++ [233]%N ++ runes_of_ascii """
+    // @lengthOf(
+    ) `` , x {	repeat zchar[ 007 ]
+    asx , match Packet as string_{
+007: chars , [ /// triple
+""\" ++ [233]%N ++ runes_of_ascii """ , 255 ,	""" ++ [28040; 24687]%N ++ runes_of_ascii """
+    , 42
+,00 ,""\" ++ [233]%N ++ runes_of_ascii """ ,""abc""
+    , 007
+    ]	:// " ++ [27880; 37322]%N ++ runes_of_ascii "
+leftPad ,42 : metadata [
+    """ ++ [28040; 24687]%N ++ runes_of_ascii """ , ""\n""//x
+]
+:
+T 3 :
+repeatCount ,	},
+char[	4294967296] MetaDataX
+,i64 f32a , } , } , repeat int32 msg_type,
+    // a // b
+    } , @lengthOf( charz
+) // " ++ [27880; 37322]%N ++ runes_of_ascii "
+trueish
+    // trailing space 
+    leftPad  `doc`
+    , @lengthOf( f32a) T u `` //x
+,	@leftPad (
+'\x00' )
+    u8 x_y_z@lengthOf(
+T ) `two words` ,}")).
+Eval vm_compute in ("<<<M225>>>" ++ check (runes_of_ascii "packet	crc { //
+match	uint8x as x { 0: charz [0123456789, 00, 65535 ,
+    //x
+    ""abc""
+//
+// c
+,
+// " ++ [128512]%N ++ runes_of_ascii " emoji
+//	t
+10	, 42
+,
+""`tick`"" ,00
+    ] //
+:
+// packet A { u8 x, }
+// c
+crc
+    ,[ ""{,}"" ] :
+    tag,	""abc""
+    :
+len , ""`tick`"" /// triple
+: int }
+    , }
+packet u {
+    string
+// a // b
+// " ++ [27880; 37322]%N ++ runes_of_ascii "
+Header, @calculatedFrom( """ ++ [233]%N ++ runes_of_ascii "t" ++ [233]%N ++ runes_of_ascii """ )
+repeat int Z9_ ,@calculatedFrom(
+    ""// no comment""
+) float32 // trailing space 
+uint8x`u8 x,` , Foo
+@calculatedFrom( // " ++ [128512]%N ++ runes_of_ascii " emoji
+""a\\"" )`
+` , }")).
+Eval vm_compute in ("<<<M235>>>" ++ check (runes_of_ascii "options // packet A { u8 x, }
+{ MetaDataX
+=
+00
+    // trailing space 
+    ; stringy = ""packet"" Header= char[ 42 ]} packet As  {
+} packet trueish{ BodyLength ,
+    @tag(
+42 )u8 msg_type @calculatedFrom(
+""a\""b"" ) ,
+repeat  u16 u128
+, @calculatedFrom(
+    ""abc"")
+// `tick` ""quote"" 'q'
+// packet A { u8 x, }
+match charz as x_y_z {3	:
+    //	t
+    Z9_, 7: repeatCount [ //x
+1 , ""a\\""// c
+] :
+    i64_
+    , ""it's"":
+    Logon },
+f32 // 50% %s
+int `it's`, @calculatedFrom( ""{,}""
+    )
+falsey @calculatedFrom( ""a\""b"" )
+, @lengthOf(A	)
+    Header
+// 50% %s
+/// triple
+@calculatedFrom( ""packet"" )
+    `tab	here`  ,char[3 // trailing space 
+] zchar@lengthOf( rootA ) , }
 
 ")).
-Eval vm_compute in ("<<<T265>>>" ++ terms [mkTok 37 "MetaData" 1 0 false; mkTok 42 "metadata" 1 9 false; mkTok 2 "{" 1 18 false; mkTok 44 "// `tick` ""quote"" 'q'" 1 20 true; mkTok 42 "msg_type" 2 0 false; mkTok 42 "Pad" 3 0 false; mkTok 40 "," 4 4 false; mkTok 24 "int8" 4 6 false; mkTok 42 "calculatedFrom" 5 0 false; mkTok 40 "," 5 14 false; mkTok 3 "}" 5 16 false; mkTok 37 "MetaData" 5 18 false; mkTok 42 "msg_type" 5 27 false; mkTok 2 "{" 5 35 false; mkTok 44 "// packet A { u8 x, }" 5 36 true; mkTok 3 "}" 6 0 false; mkTok 35 "packet" 7 0 false; mkTok 44 "// a // b" 7 7 true; mkTok 42 "len" 8 0 false; mkTok 2 "{" 8 4 false; mkTok 42 "_x" 8 5 false; mkTok 40 "," 8 8 false; mkTok 3 "}" 8 10 false; mkTok 1 "options" 9 0 false; mkTok 2 "{" 9 8 false; mkTok 42 "As" 9 10 false; mkTok 4 "=" 9 13 false; mkTok 44 "// a // b" 10 0 true; mkTok 44 "// c" 11 0 true; mkTok 10 "true" 12 0 false; mkTok 41 ";" 13 0 false; mkTok 44 (string_of_bytes [47; 47; 32; 230; 179; 168; 233; 135; 138]%N) 13 2 true; mkTok 42 "repeatCount" 14 0 false; mkTok 4 "=" 15 4 false; mkTok 33 "'\x00'" 15 5 false; mkTok 41 ";" 15 12 false; mkTok 42 "uint8x" 15 14 false; mkTok 44 "// packet A { u8 x, }" 15 21 true; mkTok 4 "=" 16 0 false; mkTok 31 (string_of_bytes [34; 92; 195; 169; 34]%N) 16 2 false; mkTok 41 ";" 16 6 false; mkTok 42 "chars" 17 4 false; mkTok 4 "=" 17 9 false; mkTok 10 "true" 17 11 false; mkTok 41 ";" 18 0 false; mkTok 3 "}" 18 2 false; mkTok 44 (string_of_bytes [47; 47; 32; 230; 179; 168; 233; 135; 138]%N) 19 0 true; mkTok 44 "// `tick` ""quote"" 'q'" 20 0 true; mkTok 35 "packet" 21 0 false; mkTok 42 "crc" 21 7 false; mkTok 2 "{" 21 11 false; mkTok 42 "matchKey" 21 12 false; mkTok 7 "@lengthOf(" 21 21 false; mkTok 42 "float" 21 32 false; mkTok 6 ")" 21 38 false; mkTok 40 "," 21 40 false; mkTok 32 "@leftPad" 22 0 false; mkTok 8 "(" 22 9 false; mkTok 33 "'0'" 22 11 false; mkTok 6 ")" 23 4 false; mkTok 38 "match" 23 6 false; mkTok 42 "i8i8" 23 12 false; mkTok 17 "as" 23 17 false; mkTok 42 "x" 23 20 false; mkTok 2 "{" 24 0 false; mkTok 18 "[" 24 1 false; mkTok 44 (string_of_bytes [47; 47; 32; 240; 159; 152; 128; 32; 101; 109; 111; 106; 105]%N) 24 3 true; mkTok 30 "65535" 25 0 false; mkTok 40 "," 25 6 false; mkTok 44 "// trailing space " 26 4 true; mkTok 30 "10" 27 4 false; mkTok 40 "," 27 7 false; mkTok 30 "4294967296" 27 9 false; mkTok 13 "]" 28 0 false; mkTok 39 ":" 28 2 false; mkTok 42 "repeatCount" 28 3 false; mkTok 40 "," 28 15 false; mkTok 31 """// no comment""" 28 18 false; mkTok 39 ":" 28 33 false; mkTok 42 "stringy" 28 35 false; mkTok 40 "," 29 4 false; mkTok 3 "}" 29 5 false; mkTok 40 "," 29 7 false; mkTok 5 "@calculatedFrom(" 30 4 false; mkTok 31 (string_of_bytes [34; 97; 9; 98; 34]%N) 30 21 false; mkTok 6 ")" 31 0 false; mkTok 42 "crc" 31 1 false; mkTok 44 (string_of_bytes [47; 47; 32; 230; 179; 168; 233; 135; 138]%N) 32 0 true; mkTok 44 "// trailing space " 33 0 true; mkTok 40 "," 34 0 false; mkTok 44 "/// triple" 35 4 true; mkTok 3 "}" 36 4 false; mkTok 0 "<EOF>" 38 0 false] (mkPacket (mkPtok 37 "MetaData" 1 0 0) (Some (mkPtok 3 "}" 36 4 91)) [(DMeta (mkMetaDef (mkSpan (mkPtok 37 "MetaData" 1 0 0) (mkPtok 3 "}" 5 16 10)) (mkPtok 37 "MetaData" 1 0 0) (mkPtok 42 "metadata" 1 9 1) (mkPtok 2 "{" 1 18 2) [(MIRef (mkRefMetaDecl (mkSpan (mkPtok 42 "msg_type" 2 0 4) (mkPtok 40 "," 4 4 6)) (mkPtok 42 "msg_type" 2 0 4) (mkPtok 42 "Pad" 3 0 5) None (mkPtok 40 "," 4 4 6))); (MIDecl (mkMetaDecl (mkSpan (mkPtok 24 "int8" 4 6 7) (mkPtok 40 "," 5 14 9)) (TyBasic (mkSpan (mkPtok 24 "int8" 4 6 7) (mkPtok 24 "int8" 4 6 7)) (mkBasicType (mkSpan (mkPtok 24 "int8" 4 6 7) (mkPtok 24 "int8" 4 6 7)) (mkPtok 24 "int8" 4 6 7))) (mkPtok 42 "calculatedFrom" 5 0 8) None (mkPtok 40 "," 5 14 9)))] (mkPtok 3 "}" 5 16 10))); (DMeta (mkMetaDef (mkSpan (mkPtok 37 "MetaData" 5 18 11) (mkPtok 3 "}" 6 0 15)) (mkPtok 37 "MetaData" 5 18 11) (mkPtok 42 "msg_type" 5 27 12) (mkPtok 2 "{" 5 35 13) [] (mkPtok 3 "}" 6 0 15))); (DPacket (mkPacketDef (mkSpan (mkPtok 35 "packet" 7 0 16) (mkPtok 3 "}" 8 10 22)) None (mkPtok 35 "packet" 7 0 16) (mkPtok 42 "len" 8 0 18) (mkPtok 2 "{" 8 4 19) [(mkFieldWithAttr (mkSpan (mkPtok 42 "_x" 8 5 20) (mkPtok 40 "," 8 8 21)) [] (ObjectField (mkSpan (mkPtok 42 "_x" 8 5 20) (mkPtok 40 "," 8 8 21)) None (mkPtok 42 "_x" 8 5 20) None None (mkPtok 40 "," 8 8 21)))] (mkPtok 3 "}" 8 10 22))); (DOption (mkOptionDef (mkSpan (mkPtok 1 "options" 9 0 23) (mkPtok 3 "}" 18 2 45)) (mkPtok 1 "options" 9 0 23) (mkPtok 2 "{" 9 8 24) [(mkOptionDecl (mkSpan (mkPtok 42 "As" 9 10 25) (mkPtok 41 ";" 13 0 30)) (mkPtok 42 "As" 9 10 25) (mkPtok 4 "=" 9 13 26) (VTrue (mkSpan (mkPtok 10 "true" 12 0 29) (mkPtok 10 "true" 12 0 29)) (mkPtok 10 "true" 12 0 29)) (Some (mkPtok 41 ";" 13 0 30))); (mkOptionDecl (mkSpan (mkPtok 42 "repeatCount" 14 0 32) (mkPtok 41 ";" 15 12 35)) (mkPtok 42 "repeatCount" 14 0 32) (mkPtok 4 "=" 15 4 33) (VPaddingChar (mkSpan (mkPtok 33 "'\x00'" 15 5 34) (mkPtok 33 "'\x00'" 15 5 34)) (mkPtok 33 "'\x00'" 15 5 34)) (Some (mkPtok 41 ";" 15 12 35))); (mkOptionDecl (mkSpan (mkPtok 42 "uint8x" 15 14 36) (mkPtok 41 ";" 16 6 40)) (mkPtok 42 "uint8x" 15 14 36) (mkPtok 4 "=" 16 0 38) (VString (mkSpan (mkPtok 31 (string_of_bytes [34; 92; 195; 169; 34]%N) 16 2 39) (mkPtok 31 (string_of_bytes [34; 92; 195; 169; 34]%N) 16 2 39)) (mkPtok 31 (string_of_bytes [34; 92; 195; 169; 34]%N) 16 2 39)) (Some (mkPtok 41 ";" 16 6 40))); (mkOptionDecl (mkSpan (mkPtok 42 "chars" 17 4 41) (mkPtok 41 ";" 18 0 44)) (mkPtok 42 "chars" 17 4 41) (mkPtok 4 "=" 17 9 42) (VTrue (mkSpan (mkPtok 10 "true" 17 11 43) (mkPtok 10 "true" 17 11 43)) (mkPtok 10 "true" 17 11 43)) (Some (mkPtok 41 ";" 18 0 44)))] (mkPtok 3 "}" 18 2 45))); (DPacket (mkPacketDef (mkSpan (mkPtok 35 "packet" 21 0 48) (mkPtok 3 "}" 36 4 91)) None (mkPtok 35 "packet" 21 0 48) (mkPtok 42 "crc" 21 7 49) (mkPtok 2 "{" 21 11 50) [(mkFieldWithAttr (mkSpan (mkPtok 42 "matchKey" 21 12 51) (mkPtok 40 "," 21 40 55)) [] (LengthField (mkSpan (mkPtok 42 "matchKey" 21 12 51) (mkPtok 40 "," 21 40 55)) (mkLengthFieldDecl (mkSpan (mkPtok 42 "matchKey" 21 12 51) (mkPtok 40 "," 21 40 55)) None (mkPtok 42 "matchKey" 21 12 51) (mkLengthOf (mkSpan (mkPtok 7 "@lengthOf(" 21 21 52) (mkPtok 6 ")" 21 38 54)) (mkPtok 7 "@lengthOf(" 21 21 52) (mkPtok 42 "float" 21 32 53) (mkPtok 6 ")" 21 38 54)) None (mkPtok 40 "," 21 40 55)))); (mkFieldWithAttr (mkSpan (mkPtok 32 "@leftPad" 22 0 56) (mkPtok 40 "," 29 7 82)) [(FAPadding (mkSpan (mkPtok 32 "@leftPad" 22 0 56) (mkPtok 6 ")" 23 4 59)) (mkPaddingAttr (mkSpan (mkPtok 32 "@leftPad" 22 0 56) (mkPtok 6 ")" 23 4 59)) (mkPtok 32 "@leftPad" 22 0 56) (mkPtok 8 "(" 22 9 57) (Some (mkPtok 33 "'0'" 22 11 58)) (mkPtok 6 ")" 23 4 59)))] (MatchField (mkSpan (mkPtok 38 "match" 23 6 60) (mkPtok 40 "," 29 7 82)) (mkMatchFieldDecl (mkSpan (mkPtok 38 "match" 23 6 60) (mkPtok 3 "}" 29 5 81)) (mkPtok 38 "match" 23 6 60) (mkPtok 42 "i8i8" 23 12 61) (mkPtok 17 "as" 23 17 62) (mkPtok 42 "x" 23 20 63) (mkPtok 2 "{" 24 0 64) [(mkMatchPair (mkSpan (mkPtok 18 "[" 24 1 65) (mkPtok 40 "," 28 15 76)) (MKList (mkKeyList (mkSpan (mkPtok 18 "[" 24 1 65) (mkPtok 13 "]" 28 0 73)) (mkPtok 18 "[" 24 1 65) (mkPtok 30 "65535" 25 0 67) [((mkPtok 40 "," 25 6 68), (mkPtok 30 "10" 27 4 70)); ((mkPtok 40 "," 27 7 71), (mkPtok 30 "4294967296" 27 9 72))] (mkPtok 13 "]" 28 0 73))) (mkPtok 39 ":" 28 2 74) (mkPtok 42 "repeatCount" 28 3 75) (Some (mkPtok 40 "," 28 15 76))); (mkMatchPair (mkSpan (mkPtok 31 """// no comment""" 28 18 77) (mkPtok 40 "," 29 4 80)) (MKString (mkPtok 31 """// no comment""" 28 18 77)) (mkPtok 39 ":" 28 33 78) (mkPtok 42 "stringy" 28 35 79) (Some (mkPtok 40 "," 29 4 80)))] (mkPtok 3 "}" 29 5 81)) (mkPtok 40 "," 29 7 82))); (mkFieldWithAttr (mkSpan (mkPtok 5 "@calculatedFrom(" 30 4 83) (mkPtok 40 "," 34 0 89)) [(FACalculatedFrom (mkSpan (mkPtok 5 "@calculatedFrom(" 30 4 83) (mkPtok 6 ")" 31 0 85)) (mkCalculatedFrom (mkSpan (mkPtok 5 "@calculatedFrom(" 30 4 83) (mkPtok 6 ")" 31 0 85)) (mkPtok 5 "@calculatedFrom(" 30 4 83) (mkPtok 31 (string_of_bytes [34; 97; 9; 98; 34]%N) 30 21 84) (mkPtok 6 ")" 31 0 85)))] (ObjectField (mkSpan (mkPtok 42 "crc" 31 1 86) (mkPtok 40 "," 34 0 89)) None (mkPtok 42 "crc" 31 1 86) None None (mkPtok 40 "," 34 0 89)))] (mkPtok 3 "}" 36 4 91)))])).
-Eval vm_compute in ("<<<M275>>>" ++ check (runes_of_ascii "
-root packet u128 { @calculatedFrom( ""// no comment"" ) @tag(	10//	t
-) @calculatedFrom( ""packet"" ) BodyLength ``
-    , char BodyLength `two words`	, repeat uint32 f32a // trailing space 
-, crc {	repeat
-repeatCount Packet , MetaDataX@lengthOf(
-    chars
+Eval vm_compute in ("<<<M245>>>" ++ check (runes_of_ascii "packet
+    body { @tag( 42
+    ) char[ 4294967296
+] chars @calculatedFrom( ""{,}"")
+`doc` // " ++ [27880; 37322]%N ++ runes_of_ascii "
+,
+repeat string lengthOf , @tag(
+    3 /// triple
+) string float @lengthOf( o
 ),
-options1 _x ,
-repeat float64 T//x
-,} ,@tag( 3 )
-    @leftPad
-( '\x00') @rightPad
-(
-// @lengthOf(
-/// triple
+    u32 pack `100% of %d`, stringy
+@lengthOf( repeatCount
+    ) `say ""hi""`  , float32 crc `two words` , } packet zchar { @tag(
+    0
+    )
+    @tag(  1 // a // b
 )
-    match string_ as MetaDataX { ""packet"" : float ,[
-    ""abc"" // @lengthOf(
-, """"
-    // packet A { u8 x, }
-    ,	3
-,
-    //x
-    65535 ,
-    ""a	b""
-,//	t
-42
-    ,
-    1 ,
-    ""packet"" ]:
-i64_
+@lengthOf(
+    // `tick` ""quote"" 'q'
+    Z9_) u32 Logon	@calculatedFrom(  ""x y""
+)	, @tag( //	t
+1 )  string
+    packetx@lengthOf( u8x
+//	t
 // `tick` ""quote"" 'q'
-/// triple
-,
-// " ++ [27880; 37322]%N ++ runes_of_ascii "
-// trailing space 
-7 :lengthOf 0:
-len
-// trailing space 
-// packet A { u8 x, }
-,
-10 :  len , [ //	t
-0
-] : A
-    //	t
-    , }, }")).
-Eval vm_compute in ("<<<M285>>>" ++ check (runes_of_ascii "
-root  packet zchar
-    {zchar[007] Foo , }")).
-Eval vm_compute in ("<<<M295>>>" ++ check (runes_of_ascii "
-packet leftPad { // packet A { u8 x, }
-@leftPad ( ' '
-)
-repeat
-    x
-`" ++ [233]%N ++ runes_of_ascii "` ,
-repeat
-    pack ,
-// a // b
-// a // b
-uint32  A , // @lengthOf(
-@tag(10  )@leftPad
-    ( )
-    @calculatedFrom( ""a	b"" ) u32 stringy @lengthOf( lengthOf ) , Foo`line1
-line2` , crc `u8 x,`  ,// @lengthOf(
-} options {//
-x = float64
-    // trailing space 
-    ; u8x = //x
-""" ++ [128512]%N ++ runes_of_ascii """ ; pack =
-// `tick` ""quote"" 'q'
-// trailing space 
-' ';
-    // c
-    falsey
-= ""a\""b"" } packet As
-{repeat repeatCount u8x `doc`
-    // packet A { u8 x, }
-    , @leftPad ( '0' ) @calculatedFrom(""\" ++ [233]%N ++ runes_of_ascii """
-    )match asx
-as crc//x
-{ 4294967296
-    //	t
-    :
-    u8x
-    , ""\n"" :u128
-    , 0:asx
-    [
-    255
-    // trailing space 
-    ,""x y""	] :
-    Logon ,0123456789 : A , 255	:i64_ , }
-,
-    metadata @lengthOf( u8x
-)  , repeat crc
-{	uint32
-Packet	, } /// triple
-, @calculatedFrom(""" ++ [128512]%N ++ runes_of_ascii """ )T u128  `{ , }` ,repeat i32	msg_type , @lengthOf(// packet A { u8 x, }
-T	)int	,float {
-// @lengthOf(
-// `tick` ""quote"" 'q'
-match trueish	as leftPad
+)	, zchar[10 ] uint8x
     /// triple
-    {
-[ 0  ,	""" ++ [28040; 24687]%N ++ runes_of_ascii """  ]:
-f32a, }  , uint32 i8i8,Packet{	char[ 65535 ] o
-    // trailing space 
-    @calculatedFrom( ""it's""  ) , }, // a // b
-} , uint8 i8i8 `say ""hi""`, } /// triple
-packet
-BodyLength{ }
+    `// not a comment`
+, repeat // a // b
+stringy{ i16
+    Z9_`// not a comment` ,repeat zchar[
+    4294967296 ] u
+,zchar @calculatedFrom(  ""{,}"" ) `a\` , }
+,
+rootA  u128 , } packet asx {
+repeat i64_ ,@lengthOf( msg_type )repeat Z9_ rootA
+    , }")).
+Eval vm_compute in ("<<<M255>>>" ++ check (runes_of_ascii "
+packet body { u32 BodyLength , i64 Pad	@calculatedFrom(//	t
+""// no comment"" ) , @tag( 00 )
+    @tag( 0123456789 ) @calculatedFrom(	""CRC32"" ) char i8i8 // trailing space 
+@calculatedFrom( ""// no comment"" )	,
+@tag( 3 ) @leftPad(
+    '\x00'
+)@rightPad
+( ) match
+string_ as MetaDataX//x
+{""packet"" :float , [
+    ""abc""
+, """", 3
+,
+// @lengthOf(
+/// triple
+65535
+    , ""a	b"" , 42 , 1 , ""packet"" ]:
+    i64_ // @lengthOf(
+, 7
+    // packet A { u8 x, }
+    :	lengthOf
+0
+    //x
+    : len
+    ,
+10// 50% %s
+: len , [0  ] :A, }
+, }
+// `tick` ""quote"" 'q'
 ")).
+Eval vm_compute in ("<<<M265>>>" ++ check (runes_of_ascii "packet metadata {
+    zchar[
+1 ] stringy
+    ,repeat float uint8x,
+@tag(
+255 )
+    // `tick` ""quote"" 'q'
+    zchar
+    // `tick` ""quote"" 'q'
+    @lengthOf( _x	), tag
+@lengthOf( /// triple
+i64_ ) , repeat repeatCount
+{ char o
+    // `tick` ""quote"" 'q'
+    ,
+    char[ 7 ]
+    T , }
+    ,
+} root
+packet	u8x
+{ @tag( 0)repeat
+    falsey string_ , @calculatedFrom( """"
+    ) lengthOf, u16 calculatedFrom ,}
+")).
+Eval vm_compute in ("<<<T265>>>" ++ terms [mkTok 35 "packet" 1 0 false; mkTok 42 "metadata" 1 7 false; mkTok 2 "{" 1 16 false; mkTok 14 "zchar[" 2 4 false; mkTok 30 "1" 3 0 false; mkTok 13 "]" 3 2 false; mkTok 42 "stringy" 3 4 false; mkTok 40 "," 4 4 false; mkTok 36 "repeat" 4 5 false; mkTok 42 "float" 4 12 false; mkTok 42 "uint8x" 4 18 false; mkTok 40 "," 4 24 false; mkTok 9 "@tag(" 5 0 false; mkTok 30 "255" 6 0 false; mkTok 6 ")" 6 4 false; mkTok 44 "// `tick` ""quote"" 'q'" 7 4 true; mkTok 42 "zchar" 8 4 false; mkTok 44 "// `tick` ""quote"" 'q'" 9 4 true; mkTok 7 "@lengthOf(" 10 4 false; mkTok 42 "_x" 10 15 false; mkTok 6 ")" 10 18 false; mkTok 40 "," 10 19 false; mkTok 42 "tag" 10 21 false; mkTok 7 "@lengthOf(" 11 0 false; mkTok 44 "/// triple" 11 11 true; mkTok 42 "i64_" 12 0 false; mkTok 6 ")" 12 5 false; mkTok 40 "," 12 7 false; mkTok 36 "repeat" 12 9 false; mkTok 42 "repeatCount" 12 16 false; mkTok 2 "{" 13 0 false; mkTok 19 "char" 13 2 false; mkTok 42 "o" 13 7 false; mkTok 44 "// `tick` ""quote"" 'q'" 14 4 true; mkTok 40 "," 15 4 false; mkTok 12 "char[" 16 4 false; mkTok 30 "7" 16 10 false; mkTok 13 "]" 16 12 false; mkTok 42 "T" 17 4 false; mkTok 40 "," 17 6 false; mkTok 3 "}" 17 8 false; mkTok 40 "," 18 4 false; mkTok 3 "}" 19 0 false; mkTok 34 "root" 19 2 false; mkTok 35 "packet" 20 0 false; mkTok 42 "u8x" 20 7 false; mkTok 2 "{" 21 0 false; mkTok 9 "@tag(" 21 2 false; mkTok 30 "0" 21 8 false; mkTok 6 ")" 21 9 false; mkTok 36 "repeat" 21 10 false; mkTok 42 "falsey" 22 4 false; mkTok 42 "string_" 22 11 false; mkTok 40 "," 22 19 false; mkTok 5 "@calculatedFrom(" 22 21 false; mkTok 31 """""" 22 38 false; mkTok 6 ")" 23 4 false; mkTok 42 "lengthOf" 23 6 false; mkTok 40 "," 23 14 false; mkTok 21 "u16" 23 16 false; mkTok 42 "calculatedFrom" 23 20 false; mkTok 40 "," 23 35 false; mkTok 3 "}" 23 36 false; mkTok 0 "<EOF>" 24 0 false] (mkPacket (mkPtok 35 "packet" 1 0 0) (Some (mkPtok 3 "}" 23 36 62)) [(DPacket (mkPacketDef (mkSpan (mkPtok 35 "packet" 1 0 0) (mkPtok 3 "}" 19 0 42)) None (mkPtok 35 "packet" 1 0 0) (mkPtok 42 "metadata" 1 7 1) (mkPtok 2 "{" 1 16 2) [(mkFieldWithAttr (mkSpan (mkPtok 14 "zchar[" 2 4 3) (mkPtok 40 "," 4 4 7)) [] (MetaField (mkSpan (mkPtok 14 "zchar[" 2 4 3) (mkPtok 40 "," 4 4 7)) None (mkMetaDecl (mkSpan (mkPtok 14 "zchar[" 2 4 3) (mkPtok 40 "," 4 4 7)) (TyFixed (mkSpan (mkPtok 14 "zchar[" 2 4 3) (mkPtok 13 "]" 3 2 5)) (mkFixedString (mkSpan (mkPtok 14 "zchar[" 2 4 3) (mkPtok 13 "]" 3 2 5)) (mkPtok 14 "zchar[" 2 4 3) (mkPtok 30 "1" 3 0 4) (mkPtok 13 "]" 3 2 5))) (mkPtok 42 "stringy" 3 4 6) None (mkPtok 40 "," 4 4 7)))); (mkFieldWithAttr (mkSpan (mkPtok 36 "repeat" 4 5 8) (mkPtok 40 "," 4 24 11)) [] (ObjectField (mkSpan (mkPtok 36 "repeat" 4 5 8) (mkPtok 40 "," 4 24 11)) (Some (mkPtok 36 "repeat" 4 5 8)) (mkPtok 42 "float" 4 12 9) (Some (mkPtok 42 "uint8x" 4 18 10)) None (mkPtok 40 "," 4 24 11))); (mkFieldWithAttr (mkSpan (mkPtok 9 "@tag(" 5 0 12) (mkPtok 40 "," 10 19 21)) [(FATag (mkSpan (mkPtok 9 "@tag(" 5 0 12) (mkPtok 6 ")" 6 4 14)) (mkTagAttr (mkSpan (mkPtok 9 "@tag(" 5 0 12) (mkPtok 6 ")" 6 4 14)) (mkPtok 9 "@tag(" 5 0 12) (mkPtok 30 "255" 6 0 13) (mkPtok 6 ")" 6 4 14)))] (LengthField (mkSpan (mkPtok 42 "zchar" 8 4 16) (mkPtok 40 "," 10 19 21)) (mkLengthFieldDecl (mkSpan (mkPtok 42 "zchar" 8 4 16) (mkPtok 40 "," 10 19 21)) None (mkPtok 42 "zchar" 8 4 16) (mkLengthOf (mkSpan (mkPtok 7 "@lengthOf(" 10 4 18) (mkPtok 6 ")" 10 18 20)) (mkPtok 7 "@lengthOf(" 10 4 18) (mkPtok 42 "_x" 10 15 19) (mkPtok 6 ")" 10 18 20)) None (mkPtok 40 "," 10 19 21)))); (mkFieldWithAttr (mkSpan (mkPtok 42 "tag" 10 21 22) (mkPtok 40 "," 12 7 27)) [] (LengthField (mkSpan (mkPtok 42 "tag" 10 21 22) (mkPtok 40 "," 12 7 27)) (mkLengthFieldDecl (mkSpan (mkPtok 42 "tag" 10 21 22) (mkPtok 40 "," 12 7 27)) None (mkPtok 42 "tag" 10 21 22) (mkLengthOf (mkSpan (mkPtok 7 "@lengthOf(" 11 0 23) (mkPtok 6 ")" 12 5 26)) (mkPtok 7 "@lengthOf(" 11 0 23) (mkPtok 42 "i64_" 12 0 25) (mkPtok 6 ")" 12 5 26)) None (mkPtok 40 "," 12 7 27)))); (mkFieldWithAttr (mkSpan (mkPtok 36 "repeat" 12 9 28) (mkPtok 40 "," 18 4 41)) [] (InerObjectField (mkSpan (mkPtok 36 "repeat" 12 9 28) (mkPtok 40 "," 18 4 41)) (Some (mkPtok 36 "repeat" 12 9 28)) (InerObjectDecl (mkSpan (mkPtok 42 "repeatCount" 12 16 29) (mkPtok 3 "}" 17 8 40)) (mkPtok 42 "repeatCount" 12 16 29) (mkPtok 2 "{" 13 0 30) [(MetaField (mkSpan (mkPtok 19 "char" 13 2 31) (mkPtok 40 "," 15 4 34)) None (mkMetaDecl (mkSpan (mkPtok 19 "char" 13 2 31) (mkPtok 40 "," 15 4 34)) (TyBasic (mkSpan (mkPtok 19 "char" 13 2 31) (mkPtok 19 "char" 13 2 31)) (mkBasicType (mkSpan (mkPtok 19 "char" 13 2 31) (mkPtok 19 "char" 13 2 31)) (mkPtok 19 "char" 13 2 31))) (mkPtok 42 "o" 13 7 32) None (mkPtok 40 "," 15 4 34))); (MetaField (mkSpan (mkPtok 12 "char[" 16 4 35) (mkPtok 40 "," 17 6 39)) None (mkMetaDecl (mkSpan (mkPtok 12 "char[" 16 4 35) (mkPtok 40 "," 17 6 39)) (TyFixed (mkSpan (mkPtok 12 "char[" 16 4 35) (mkPtok 13 "]" 16 12 37)) (mkFixedString (mkSpan (mkPtok 12 "char[" 16 4 35) (mkPtok 13 "]" 16 12 37)) (mkPtok 12 "char[" 16 4 35) (mkPtok 30 "7" 16 10 36) (mkPtok 13 "]" 16 12 37))) (mkPtok 42 "T" 17 4 38) None (mkPtok 40 "," 17 6 39)))] (mkPtok 3 "}" 17 8 40)) (mkPtok 40 "," 18 4 41)))] (mkPtok 3 "}" 19 0 42))); (DPacket (mkPacketDef (mkSpan (mkPtok 34 "root" 19 2 43) (mkPtok 3 "}" 23 36 62)) (Some (mkPtok 34 "root" 19 2 43)) (mkPtok 35 "packet" 20 0 44) (mkPtok 42 "u8x" 20 7 45) (mkPtok 2 "{" 21 0 46) [(mkFieldWithAttr (mkSpan (mkPtok 9 "@tag(" 21 2 47) (mkPtok 40 "," 22 19 53)) [(FATag (mkSpan (mkPtok 9 "@tag(" 21 2 47) (mkPtok 6 ")" 21 9 49)) (mkTagAttr (mkSpan (mkPtok 9 "@tag(" 21 2 47) (mkPtok 6 ")" 21 9 49)) (mkPtok 9 "@tag(" 21 2 47) (mkPtok 30 "0" 21 8 48) (mkPtok 6 ")" 21 9 49)))] (ObjectField (mkSpan (mkPtok 36 "repeat" 21 10 50) (mkPtok 40 "," 22 19 53)) (Some (mkPtok 36 "repeat" 21 10 50)) (mkPtok 42 "falsey" 22 4 51) (Some (mkPtok 42 "string_" 22 11 52)) None (mkPtok 40 "," 22 19 53))); (mkFieldWithAttr (mkSpan (mkPtok 5 "@calculatedFrom(" 22 21 54) (mkPtok 40 "," 23 14 58)) [(FACalculatedFrom (mkSpan (mkPtok 5 "@calculatedFrom(" 22 21 54) (mkPtok 6 ")" 23 4 56)) (mkCalculatedFrom (mkSpan (mkPtok 5 "@calculatedFrom(" 22 21 54) (mkPtok 6 ")" 23 4 56)) (mkPtok 5 "@calculatedFrom(" 22 21 54) (mkPtok 31 """""" 22 38 55) (mkPtok 6 ")" 23 4 56)))] (ObjectField (mkSpan (mkPtok 42 "lengthOf" 23 6 57) (mkPtok 40 "," 23 14 58)) None (mkPtok 42 "lengthOf" 23 6 57) None None (mkPtok 40 "," 23 14 58))); (mkFieldWithAttr (mkSpan (mkPtok 21 "u16" 23 16 59) (mkPtok 40 "," 23 35 61)) [] (MetaField (mkSpan (mkPtok 21 "u16" 23 16 59) (mkPtok 40 "," 23 35 61)) None (mkMetaDecl (mkSpan (mkPtok 21 "u16" 23 16 59) (mkPtok 40 "," 23 35 61)) (TyBasic (mkSpan (mkPtok 21 "u16" 23 16 59) (mkPtok 21 "u16" 23 16 59)) (mkBasicType (mkSpan (mkPtok 21 "u16" 23 16 59) (mkPtok 21 "u16" 23 16 59)) (mkPtok 21 "u16" 23 16 59))) (mkPtok 42 "calculatedFrom" 23 20 60) None (mkPtok 40 "," 23 35 61))))] (mkPtok 3 "}" 23 36 62)))])).
+Eval vm_compute in ("<<<M275>>>" ++ check (runes_of_ascii "root packet body { o {a1
+rootA , },@leftPad
+( ' ' // a // b
+)
+    // packet A { u8 x, }
+    charz int, repeat packetx
+// trailing space 
+// " ++ [128512]%N ++ runes_of_ascii " emoji
+{ repeat Z9_{  lengthOf @calculatedFrom( ""`tick`""
+    )
+`a\` ,
+} ,int8 i64_
+// `tick` ""quote"" 'q'
+// 50% %s
+,} , @lengthOf(
+    len ) repeat
+    zchar{
+    /// triple
+    Pad a1 , int16 a1 @calculatedFrom(
+    ""1""// 50% %s
+) `` ,	rootA	{ match a1 as options1	{ 4294967296 :  Header ,""{,}""
+    :i8i8 [ """ ++ [28040; 24687]%N ++ runes_of_ascii """ , 7 ] :x , """":i64_ , }
+, f32a // " ++ [27880; 37322]%N ++ runes_of_ascii "
+{
+    repeat
+    a1 ,
+    // c
+    len // c
+@calculatedFrom( ""abc"") , } ,// `tick` ""quote"" 'q'
+repeat	zchar[10 ] stringy	`a\`,
+repeat calculatedFrom // " ++ [128512]%N ++ runes_of_ascii " emoji
+{ repeat repeatCount
+// c
+//	t
+, repeat i32 Pad `" ++ [28040; 24687; 31867; 22411]%N ++ runes_of_ascii "` ,	}
+,} ,
+lengthOf{ lengthOf @calculatedFrom( ""it's"") ,  char[]  Pad`say ""hi""`
+, },
+} ,
+zchar[
+0123456789 ]
+chars,	float
+@lengthOf(
+asx )
+, zchar{
+    match msg_type as Packet { ""packet"" : packetx 1: chars , 0123456789
+: metadata 255 : lengthOf
+// trailing space 
+/// triple
+,""// no comment"": a1,// 50% %s
+4294967296 :  pack , } ,
+    }	, @leftPad (  ) char[ 00
+    ] rootA ,
+    MetaDataX { match float
+    as body{
+// `tick` ""quote"" 'q'
+// @lengthOf(
+[ ""a\""b"" , 007] :
+// @lengthOf(
+// 50% %s
+_x  , } , match calculatedFrom as
+x_y_z { // a // b
+0123456789 :o 0 : a1 , }  ,_x{ match body// a // b
+as	As	{
+7: pack
+,
+// trailing space 
+// `tick` ""quote"" 'q'
+""it's""
+    : f32a , } , }
+, repeat
+char[] x
+    `a\`, } , }
+packet x_y_z{repeat
+Pad
+    // c
+    { int32 int
+//	t
+// a // b
+@calculatedFrom( ""CRC32""
+    )
+    // c
+    , }  , @tag( 3	)
+    @lengthOf(roots )	@tag( 00 ) match rootA
+    as
+// trailing space 
+// c
+u{ [7] : string_ [// " ++ [128512]%N ++ runes_of_ascii " emoji
+10
+, ""CRC32""
+,
+007
+]
+    :
+Logon
+, 007
+:metadata // `tick` ""quote"" 'q'
+,
+255:
+/// triple
+// c
+As [ // " ++ [27880; 37322]%N ++ runes_of_ascii "
+""packet""
+    ]:zchar}
+//x
+// a // b
+, }	packet roots	{	float64
+/// triple
+// `tick` ""quote"" 'q'
+Packet, }
+")).
+Eval vm_compute in ("<<<M285>>>" ++ check (runes_of_ascii "
+")).
+Eval vm_compute in ("<<<M295>>>" ++ check (runes_of_ascii "options
+    {As=""" ++ [28040; 24687]%N ++ runes_of_ascii """ ; } // @lengthOf(")).
 Eval vm_compute in ("<<<M305>>>" ++ check (runes_of_ascii "options {
 	StringPrefixLenType = u16;
 	ArrayPrefixLenType = u16;
@@ -707,115 +832,276 @@ packet Detail {
 	string RuleName `" ++ [35268; 21017; 21517; 31216]%N ++ runes_of_ascii "`,
 	u16 Code `" ++ [21407; 22240; 20195; 30721]%N ++ runes_of_ascii "`,
 }")).
-Eval vm_compute in ("<<<M315>>>" ++ check (runes_of_ascii "packet
-asx asx
-{ Z9_ Header// " ++ [128512]%N ++ runes_of_ascii " emoji
-,} packet pack
-    { }
+Eval vm_compute in ("<<<M315>>>" ++ check (runes_of_ascii "MetaData
+crc crc	{ char[] Z9_`{ , }`,} options { tag =
+    false } packet
+// a // b
+// @lengthOf(
+Pad {Foo @calculatedFrom( // `tick` ""quote"" 'q'
+""a\\"" ) ,
+    trueish ,
+    char[ 00]
+    // " ++ [128512]%N ++ runes_of_ascii " emoji
+    packetx , }
 ")).
-Eval vm_compute in ("<<<M325>>>" ++ check (runes_of_ascii "packet
-asx
-{ Z9_ Z9_ Header// " ++ [128512]%N ++ runes_of_ascii " emoji
-,} packet pack
-    { }
+Eval vm_compute in ("<<<M325>>>" ++ check (runes_of_ascii "MetaData
+crc	{ char[] char[] Z9_`{ , }`,} options { tag =
+    false } packet
+// a // b
+// @lengthOf(
+Pad {Foo @calculatedFrom( // `tick` ""quote"" 'q'
+""a\\"" ) ,
+    trueish ,
+    char[ 00]
+    // " ++ [128512]%N ++ runes_of_ascii " emoji
+    packetx , }
 ")).
-Eval vm_compute in ("<<<M335>>>" ++ check (runes_of_ascii "packet
-asx
-{ Z9_ Header// " ++ [128512]%N ++ runes_of_ascii " emoji
-, ,} packet pack
-    { }
+Eval vm_compute in ("<<<M335>>>" ++ check (runes_of_ascii "MetaData
+crc	{ char[] Z9_`{ , }` `{ , }`,} options { tag =
+    false } packet
+// a // b
+// @lengthOf(
+Pad {Foo @calculatedFrom( // `tick` ""quote"" 'q'
+""a\\"" ) ,
+    trueish ,
+    char[ 00]
+    // " ++ [128512]%N ++ runes_of_ascii " emoji
+    packetx , }
 ")).
-Eval vm_compute in ("<<<M345>>>" ++ check (runes_of_ascii "packet
-asx
-{ Z9_ Header// " ++ [128512]%N ++ runes_of_ascii " emoji
-,} packet packet pack
-    { }
+Eval vm_compute in ("<<<M345>>>" ++ check (runes_of_ascii "MetaData
+crc	{ char[] Z9_`{ , }`,} } options { tag =
+    false } packet
+// a // b
+// @lengthOf(
+Pad {Foo @calculatedFrom( // `tick` ""quote"" 'q'
+""a\\"" ) ,
+    trueish ,
+    char[ 00]
+    // " ++ [128512]%N ++ runes_of_ascii " emoji
+    packetx , }
 ")).
-Eval vm_compute in ("<<<M355>>>" ++ check (runes_of_ascii "packet
-asx
-{ Z9_ Header// " ++ [128512]%N ++ runes_of_ascii " emoji
-,} packet pack
-    { { }
+Eval vm_compute in ("<<<M355>>>" ++ check (runes_of_ascii "MetaData
+crc	{ char[] Z9_`{ , }`,} options { { tag =
+    false } packet
+// a // b
+// @lengthOf(
+Pad {Foo @calculatedFrom( // `tick` ""quote"" 'q'
+""a\\"" ) ,
+    trueish ,
+    char[ 00]
+    // " ++ [128512]%N ++ runes_of_ascii " emoji
+    packetx , }
 ")).
-Eval vm_compute in ("<<<M365>>>" ++ check (runes_of_ascii "packet
-asx
-{ Z9_ H")).
-Eval vm_compute in ("<<<M375>>>" ++ check (runes_of_ascii "packet
-asx
-{ Z9_ Header// " ++ [128512]%N ++ runes_of_ascii " emoji
-,} packet " ++ [127]%N ++ runes_of_ascii "pack
-    { }
+Eval vm_compute in ("<<<M365>>>" ++ check (runes_of_ascii "MetaData
+crc	{ char[] Z9_`{ , }`,} options { tag = =
+    false } packet
+// a // b
+// @lengthOf(
+Pad {Foo @calculatedFrom( // `tick` ""quote"" 'q'
+""a\\"" ) ,
+    trueish ,
+    char[ 00]
+    // " ++ [128512]%N ++ runes_of_ascii " emoji
+    packetx , }
 ")).
-Eval vm_compute in ("<<<M385>>>" ++ check (runes_of_ascii " o { char[ // `tick` ""quote"" 'q'
-3] body, } packet o{
-u8
-charz ,
-    }")).
-Eval vm_compute in ("<<<M395>>>" ++ check (runes_of_ascii "MetaData o  char[ // `tick` ""quote"" 'q'
-3] body, } packet o{
-u8
-charz ,
-    }")).
-Eval vm_compute in ("<<<M405>>>" ++ check (runes_of_ascii "MetaData o { char[ // `tick` ""quote"" 'q'
-] body, } packet o{
-u8
-charz ,
-    }")).
-Eval vm_compute in ("<<<M415>>>" ++ check (runes_of_ascii "MetaData o { char[ // `tick` ""quote"" 'q'
-3] , } packet o{
-u8
-charz ,
-    }")).
-Eval vm_compute in ("<<<M425>>>" ++ check (runes_of_ascii "MetaData o { char[ // `tick` ""quote"" 'q'
-3] body,  packet o{
-u8
-charz ,
-    }")).
-Eval vm_compute in ("<<<M435>>>" ++ check (runes_of_ascii "MetaData o { char[ // `tick` ""quote"" 'q'
-3] body, } packet {
-u8
-charz ,
-    }")).
-Eval vm_compute in ("<<<M445>>>" ++ check (runes_of_ascii "MetaData o { char[ // `tick` ""quote"" 'q'
-3] body, } packet o{
-
-charz ,
-    }")).
-Eval vm_compute in ("<<<M455>>>" ++ check (runes_of_ascii "MetaData o { char[ // `tick` ""quote"" 'q'
-3] body, } packet o{
-u8
-charz 
-    }")).
-Eval vm_compute in ("<<<M465>>>" ++ check (runes_of_ascii "MetaData o ")).
-Eval vm_compute in ("<<<M475>>>" ++ check (runes_of_ascii "MetaData o { char[ // `tick` ""quote"" 'q'
-3] body?, } packet o{
-u8
-charz ,
-    }")).
-Eval vm_compute in ("<<<M485>>>" ++ check (runes_of_ascii "MetaData o { char[ // `tick` ""quote"" 'q'
-3] na" ++ [239]%N ++ runes_of_ascii "ve, } packet o{
-u8
-charz ,
-    }")).
-Eval vm_compute in ("<<<M495>>>" ++ check (runes_of_ascii "options")).
-Eval vm_compute in ("<<<M505>>>" ++ check (runes_of_ascii "options {calculatedFrom")).
-Eval vm_compute in ("<<<M515>>>" ++ check (runes_of_ascii "options {calculatedFrom =	int8")).
-Eval vm_compute in ("<<<M525>>>" ++ check ([8232]%N ++ runes_of_ascii "options {calculatedFrom =	int8 ;}
-
+Eval vm_compute in ("<<<M375>>>" ++ check (runes_of_ascii "MetaData
+crc	{ char[] Z9_`{ , }`,} options { tag =
+    false } } packet
+// a // b
+// @lengthOf(
+Pad {Foo @calculatedFrom( // `tick` ""quote"" 'q'
+""a\\"" ) ,
+    trueish ,
+    char[ 00]
+    // " ++ [128512]%N ++ runes_of_ascii " emoji
+    packetx , }
 ")).
-Eval vm_compute in ("<<<M535>>>" ++ check (runes_of_ascii "options {" ++ [233]%N ++ runes_of_ascii " calculatedFrom =	int8 ;}
-
+Eval vm_compute in ("<<<M385>>>" ++ check (runes_of_ascii "MetaData
+crc	{ char[] Z9_`{ , }`,} options { tag =
+    false } packet
+// a // b
+// @lengthOf(
+Pad Pad {Foo @calculatedFrom( // `tick` ""quote"" 'q'
+""a\\"" ) ,
+    trueish ,
+    char[ 00]
+    // " ++ [128512]%N ++ runes_of_ascii " emoji
+    packetx , }
 ")).
-Eval vm_compute in ("<<<M545>>>" ++ check (runes_of_ascii "
-MetaData chars {Logon packetx,
-    float calculatedFrom
-,  u32 i64_ ,	")).
-Eval vm_compute in ("<<<M555>>>" ++ check (runes_of_ascii "
-MetaData { chars Logon packetx,
-    float calculatedFrom
-,  u32 i64_ ,	}")).
+Eval vm_compute in ("<<<M395>>>" ++ check (runes_of_ascii "MetaData
+crc	{ char[] Z9_`{ , }`,} options { tag =
+    false } packet
+// a // b
+// @lengthOf(
+Pad {Foo Foo @calculatedFrom( // `tick` ""quote"" 'q'
+""a\\"" ) ,
+    trueish ,
+    char[ 00]
+    // " ++ [128512]%N ++ runes_of_ascii " emoji
+    packetx , }
+")).
+Eval vm_compute in ("<<<M405>>>" ++ check (runes_of_ascii "MetaData
+crc	{ char[] Z9_`{ , }`,} options { tag =
+    false } packet
+// a // b
+// @lengthOf(
+Pad {Foo @calculatedFrom( // `tick` ""quote"" 'q'
+""a\\"" ""a\\"" ) ,
+    trueish ,
+    char[ 00]
+    // " ++ [128512]%N ++ runes_of_ascii " emoji
+    packetx , }
+")).
+Eval vm_compute in ("<<<M415>>>" ++ check (runes_of_ascii "MetaData
+crc	{ char[] Z9_`{ , }`,} options { tag =
+    false } packet
+// a // b
+// @lengthOf(
+Pad {Foo @calculatedFrom( // `tick` ""quote"" 'q'
+""a\\"" ) , ,
+    trueish ,
+    char[ 00]
+    // " ++ [128512]%N ++ runes_of_ascii " emoji
+    packetx , }
+")).
+Eval vm_compute in ("<<<M425>>>" ++ check (runes_of_ascii "MetaData
+crc	{ char[] Z9_`{ , }`,} options { tag =
+    false } packet
+// a // b
+// @lengthOf(
+Pad {Foo @calculatedFrom( // `tick` ""quote"" 'q'
+""a\\"" ) ,
+    trueish , ,
+    char[ 00]
+    // " ++ [128512]%N ++ runes_of_ascii " emoji
+    packetx , }
+")).
+Eval vm_compute in ("<<<M435>>>" ++ check (runes_of_ascii "MetaData
+crc	{ char[] Z9_`{ , }`,} options { tag =
+    false } packet
+// a // b
+// @lengthOf(
+Pad {Foo @calculatedFrom( // `tick` ""quote"" 'q'
+""a\\"" ) ,
+    trueish ,
+    char[ 00 00]
+    // " ++ [128512]%N ++ runes_of_ascii " emoji
+    packetx , }
+")).
+Eval vm_compute in ("<<<M445>>>" ++ check (runes_of_ascii "MetaData
+crc	{ char[] Z9_`{ , }`,} options { tag =
+    false } packet
+// a // b
+// @lengthOf(
+Pad {Foo @calculatedFrom( // `tick` ""quote"" 'q'
+""a\\"" ) ,
+    trueish ,
+    char[ 00]
+    // " ++ [128512]%N ++ runes_of_ascii " emoji
+    packetx packetx , }
+")).
+Eval vm_compute in ("<<<M455>>>" ++ check (runes_of_ascii "MetaData
+crc	{ char[] Z9_`{ , }`,} options { tag =
+    false } packet
+// a // b
+// @lengthOf(
+Pad {Foo @calculatedFrom( // `tick` ""quote"" 'q'
+""a\\"" ) ,
+    trueish ,
+    char[ 00]
+    // " ++ [128512]%N ++ runes_of_ascii " emoji
+    packetx , } }
+")).
+Eval vm_compute in ("<<<M465>>>" ++ check (runes_of_ascii "MetaData
+crc	{ char[] Z9_`{ , }`,} options { @tagtag =
+    false } packet
+// a // b
+// @lengthOf(
+Pad {Foo @calculatedFrom( // `tick` ""quote"" 'q'
+""a\\"" ) ,
+    trueish ,
+    char[ 00]
+    // " ++ [128512]%N ++ runes_of_ascii " emoji
+    packetx , }
+")).
+Eval vm_compute in ("<<<M475>>>" ++ check (runes_of_ascii "MetaData
+crc	{ char[] Z9_`{ , }`,} options { tag |=
+    false } packet
+// a // b
+// @lengthOf(
+Pad {Foo @calculatedFrom( // `tick` ""quote"" 'q'
+""a\\"" ) ,
+    trueish ,
+    char[ 00]
+    // " ++ [128512]%N ++ runes_of_ascii " emoji
+    packetx , }
+")).
+Eval vm_compute in ("<<<M485>>>" ++ check (runes_of_ascii "root packet _x	{ @rightPad (
+' ' ) string u8x @lengthOf(
+    _x
+) , repeat Pad  { // " ++ [128512]%N ++ runes_of_ascii " emoji
+As
+// `tick` ""quote"" 'q'
+//x
+{matchKey chars,
+} , }")).
+Eval vm_compute in ("<<<M495>>>" ++ check (runes_of_ascii "root")).
+Eval vm_compute in ("<<<M505>>>" ++ check (runes_of_ascii "root packet _x	{ @rightPad (
+' ' ) zchar[ u8x @lengthOf(
+    _x
+) , repeat Pad  { // " ++ [128512]%N ++ runes_of_ascii " emoji
+As
+// `tick` ""quote"" 'q'
+//x
+{matchKey chars,
+} , }, }")).
+Eval vm_compute in ("<<<M515>>>" ++ check (runes_of_ascii "root packet _x	{ @rightPad (
+' ' ) string u8x @lengthOf(
+    _x
+) , Pad repeat  { // " ++ [128512]%N ++ runes_of_ascii " emoji
+As
+// `tick` ""quote"" 'q'
+//x
+{matchKey chars,
+} , }, }")).
+Eval vm_compute in ("<<<M525>>>" ++ check (runes_of_ascii "root packet _x	@rightPad { (
+' ' ) string u8x @lengthOf(
+    _x
+) , repeat Pad  { // " ++ [128512]%N ++ runes_of_ascii " emoji
+As
+// `tick` ""quote"" 'q'
+//x
+{matchKey chars,
+} , }, }")).
+Eval vm_compute in ("<<<M535>>>" ++ check (runes_of_ascii "root packet _x	{ @rightPad (
+' ' int16 string u8x @lengthOf(
+    _x
+) , repeat Pad  { // " ++ [128512]%N ++ runes_of_ascii " emoji
+As
+// `tick` ""quote"" 'q'
+//x
+{matchKey chars,
+} , }, }")).
+Eval vm_compute in ("<<<M545>>>" ++ check (runes_of_ascii "root packet _x	{ @rightPad (
+' ' ) string u8x @lengthOf(
+    _x
+) , repeat Pad  { // " ++ [128512]%N ++ runes_of_ascii " emoji
+As
+// `tick` ""quote"" 'q'
+//x
+{matchKey chars,
+} ,")).
+Eval vm_compute in ("<<<M555>>>" ++ check (runes_of_ascii "root packet _x	{ @rightPad (
+' ' ) string u8x @lengthOf(
+    _x
+) , repeat   { // " ++ [128512]%N ++ runes_of_ascii " emoji
+As
+// `tick` ""quote"" 'q'
+//x
+{matchKey chars,
+} , }, }")).
 Eval vm_compute in ("<<<M565>>>" ++ check (runes_of_ascii "
 ")).
 Eval vm_compute in ("<<<M575>>>" ++ check ([0]%N)).
-Eval vm_compute in ("<<<M585>>>" ++ check (runes_of_ascii "n" ++ [23; 65533]%N ++ runes_of_ascii "e" ++ [21]%N ++ runes_of_ascii "f;")).
-Eval vm_compute in ("<<<M595>>>" ++ check (runes_of_ascii "f64 [ u8 = @leftPad )")).
+Eval vm_compute in ("<<<M585>>>" ++ check ([65533; 65533; 65533; 65533]%N ++ runes_of_ascii "?jf" ++ [65533]%N ++ runes_of_ascii "8)" ++ [20; 65533]%N)).
+Eval vm_compute in ("<<<M595>>>" ++ check (runes_of_ascii "u8 int64 float64 int32 false ; false uint8 @lengthOf( `two words` u16")).
